@@ -65,6 +65,83 @@ def _flow(fa, expr, at=None, _seen=None, _out=None):
     return out
 
 
+def _backward_slice(fa, seeds, stmts=(), control_dependence=True, nested=True):
+    """Everything the values of `seeds` [(expression, CFG node)] can depend on inside the function, as {id(node): node}:
+    their sub-expressions; for every local read, the values assigned by the definitions that reach the read AND what is put
+    into that local in place (method calls on it, stores through it); the tests of the branches and the iterables of the
+    loops around those statements (control dependence; also around `stmts`); and, for calls of functions nested in this one,
+    their bodies - what they read from the enclosing scope is followed from the place where they are defined."""
+    out, seen_defs, seen_ctl, seen_fn = {}, set(), set(), set()
+    work = list(seeds)
+    # in-place changes of a local: name -> [(statement, [expressions put into it])]
+    mutations = {}
+    for st in fa.stmts():
+        for x in A.walk_local(st) if not isinstance(st, (ast.If, ast.While, ast.For, ast.AsyncFor, ast.Try, ast.With, ast.AsyncWith)) else []:
+            if isinstance(x, ast.Call) and isinstance(x.func, ast.Attribute) and isinstance(x.func.value, ast.Name):
+                mutations.setdefault(x.func.value.id, []).append((st, list(x.args) + [k.value for k in x.keywords]))
+            if isinstance(x, (ast.Subscript, ast.Attribute)) and isinstance(x.ctx, ast.Store) and isinstance(st, (ast.Assign, ast.AugAssign, ast.AnnAssign)) and st.value is not None:
+                r_ = x
+                while isinstance(r_, (ast.Subscript, ast.Attribute)):
+                    r_ = r_.value
+                if isinstance(r_, ast.Name) and r_.id != "self":
+                    mutations.setdefault(r_.id, []).append((st, [st.value] + ([x.slice] if isinstance(x, ast.Subscript) else [])))
+
+    def control(st):
+        if not control_dependence:
+            return
+        cur = st
+        while cur is not None and cur is not fa.node:
+            par = fa.pm.get(cur)
+            if isinstance(par, (ast.If, ast.While)) and id(par) not in seen_ctl and cur is not par.test:
+                seen_ctl.add(id(par))
+                for i in fa.nodes(par.test)[:1]:
+                    work.append((par.test, i))
+            elif isinstance(par, (ast.For, ast.AsyncFor)) and id(par) not in seen_ctl and cur is not par.iter:
+                seen_ctl.add(id(par))
+                for i in fa.nodes(par)[:1]:
+                    work.append((par.iter, i))
+            cur = par
+
+    for st in stmts:
+        control(st)
+    while work:
+        (e, at) = work.pop()
+        if e is None:
+            continue
+        for n in ast.walk(e):
+            out[id(n)] = n
+            if isinstance(n, ast.Name) and isinstance(n.ctx, ast.Load) and at is not None:
+                for d in fa.df.reaching(at, n.id):
+                    if (d.node, d.name) in seen_defs:
+                        continue
+                    seen_defs.add((d.node, d.name))
+                    if d.value is not None:
+                        work.append((d.value, d.node))
+                    if d.stmt is not None:
+                        control(d.stmt)
+                for (st, exprs) in mutations.get(n.id, []) if fa.df.is_local(n.id) else []:
+                    if ("mut", id(st), n.id) in seen_defs or not fa.nodes(st):
+                        continue
+                    seen_defs.add(("mut", id(st), n.id))
+                    for x in exprs:
+                        work.append((x, fa.nodes(st)[0]))
+                    control(st)
+            if nested and isinstance(n, ast.Call) and isinstance(n.func, ast.Name) and n.func.id in fa.fi.nested and n.func.id not in seen_fn:
+                seen_fn.add(n.func.id)
+                sub = fa.fi.nested[n.func.id].node
+                a_ = sub.args
+                own = {x.arg for x in a_.posonlyargs + a_.args + a_.kwonlyargs} | ({a_.vararg.arg} if a_.vararg else set()) | ({a_.kwarg.arg} if a_.kwarg else set())
+                own |= {x.id for b_ in sub.body for x in ast.walk(b_) if isinstance(x, ast.Name) and isinstance(x.ctx, ast.Store)}
+                for b_ in sub.body:
+                    for x in ast.walk(b_):
+                        out[id(x)] = x
+                        if isinstance(x, ast.Name) and isinstance(x.ctx, ast.Load) and x.id not in own and fa.df.is_local(x.id):
+                            for i in fa.nodes(sub)[:1]:
+                                work.append((ast.copy_location(ast.Name(id=x.id, ctx=ast.Load()), x), i))
+                control(sub)
+    return out
+
+
 def _alternatives(fa, expr, at, depth=6):
     """The expressions `expr` (evaluated at CFG node `at`) may stand for, as (expr, node) pairs: a local name is
     followed to every definition that reaches it (several branches assigning it, a loop variable ranging over a
@@ -74,6 +151,12 @@ def _alternatives(fa, expr, at, depth=6):
         return [(expr, at)]
     if isinstance(expr, ast.IfExp):
         return _alternatives(fa, expr.body, at, depth - 1) + _alternatives(fa, expr.orelse, at, depth - 1)
+    if isinstance(expr, ast.Call) and isinstance(expr.func, ast.Name) and expr.func.id == "getattr" and len(expr.args) == 2 and not expr.keywords:
+        # getattr(x, <name>) where <name> ranges over literal strings reads like x.<each of them>
+        names = _alternatives(fa, expr.args[1], at, depth - 1)
+        if names and all(A.const_str(e) is not None and A.const_str(e).isidentifier() for (e, _a) in names):
+            return [(ast.copy_location(ast.Attribute(value=expr.args[0], attr=A.const_str(e), ctx=ast.Load()), expr), at) for (e, _a) in names]
+        return [(expr, at)]
     if isinstance(expr, ast.Name):
         ds = fa.df.reaching(at, expr.id)
         out = []
@@ -113,6 +196,34 @@ def _call_arg(ck, call, callee_qual, name):
         return None
     ps = [p_ for p_ in fi.params if not (p_ in ("self", "cls") and not fi.is_static)]
     return A.arg_or_kw(call, ps.index(name), name) if name in ps else None
+
+
+def _conditions(fa, target):
+    """FA.conditions(target) brought to a CANONICAL disjunctive normal form (its prime implicants: consensus of every pair of
+    conjunctions that clash in exactly one literal, then absorption, to a fixpoint).  FA.conditions merges pairs greedily in set
+    iteration order, which can stop at different - equivalent but not minimal - forms from one process to the next; rules
+    compare the form, so they need the one that does not depend on that order."""
+    conds = fa.conditions(target)
+    if conds is None or len(conds) > 64:
+        return conds
+    res = set(conds)
+    for _round in range(12):
+        new = set()
+        lst = sorted(res, key=lambda c: sorted(c))
+        for i in range(len(lst)):
+            for j in range(i + 1, len(lst)):
+                a, b = lst[i], lst[j]
+                clash = [l for l in a if (l[0], not l[1]) in b]
+                if len(clash) != 1:
+                    continue
+                c = frozenset(x for x in (a | b) if x[0] != clash[0][0])
+                if not any(r <= c for r in res):
+                    new.add(c)
+        if not new or len(res) + len(new) > 400:
+            break
+        res |= new
+        res = {a for a in res if not any(b < a for b in res)}
+    return {a for a in res if not any(b < a for b in res)}
 
 
 def _single_conj(conds):
@@ -338,6 +449,21 @@ def _is_empty_container(e):
     return isinstance(e, ast.Call) and isinstance(e.func, ast.Name) and e.func.id in ("list", "set", "tuple", "dict", "frozenset") and not e.args and not e.keywords
 
 
+def _no_walrus(text):
+    """a literal's text with `(name := value)` read as `value`"""
+    if ":=" not in text:
+        return text
+    e = _parse_lit(text)
+    if e is None:
+        return text
+
+    class T(ast.NodeTransformer):
+        def visit_NamedExpr(self, n):
+            return self.visit(n.value)
+
+    return A.norm(T().visit(e))
+
+
 def _parse_lit(text):
     try:
         return ast.parse(text, mode="eval").body
@@ -392,45 +518,90 @@ def _collection_spec(fa, expr, at, depth=4):
         if len(adds) != 1 or len(muts) != 1:
             return None
         st = fa.stmt_of(adds[0])
-        if not isinstance(st, ast.Expr):
+        lf = _loop_filter(fa, st, name)
+        if lf is None:
             return None
-        atoms = []
-        cur = st
-        while True:
-            par = fa.pm.get(cur)
-            if isinstance(par, ast.If):
-                blk = par.body if cur in par.body else par.orelse
-                atoms = _split_atoms(par.test, cur in par.body) + atoms
-            elif isinstance(par, ast.For):
-                if cur not in par.body:
-                    return None
-                blk = par.body
-            else:
-                return None
-            # what precedes the statement in its block: only guards `if c: continue`
-            pre = []
-            for sib in A.sig_stmts(blk):
-                if sib is cur:
-                    break
-                if isinstance(sib, ast.If) and not A.sig_stmts(sib.orelse) and len(A.sig_stmts(sib.body)) == 1 and isinstance(A.sig_stmts(sib.body)[0], ast.Continue):
-                    pre += _split_atoms(sib.test, False)
-                else:
-                    return None
-            after = A.sig_stmts(blk)[A.sig_stmts(blk).index(cur) + 1:]
-            if any(not isinstance(x, ast.Continue) for x in after):
-                return None
-            atoms = pre + atoms
-            if isinstance(par, ast.For):
-                break
-            cur = par
-        loop = par
-        if loop.orelse or not isinstance(loop.target, ast.Name) or not fa.nodes(loop):
-            return None
-        if any(isinstance(x, (ast.Break, ast.Return)) for x in A.walk_local(loop)):
-            return None
-        ln = fa.nodes(loop)[0]
+        (loop, atoms, ln) = lf
         return {"iter": loop.iter, "iter_at": ln, "var": loop.target.id, "elt": adds[0].args[0], "atoms": atoms, "at": ln}
     return None
+
+
+def _loop_filter(fa, st, name=None):
+    """For an expression statement `st` that sits in ONE `for` loop whose body only filters (nested ifs around it, guards
+    `if c: continue` before it, per-element work that does not touch `name`): (the loop, the filter as atoms (test, polarity)
+    that hold when `st` is executed, the loop's CFG node); else None."""
+    if not isinstance(st, ast.Expr):
+        return None
+    atoms = []
+    cur = st
+    while True:
+        par = fa.pm.get(cur)
+        if isinstance(par, ast.If):
+            blk = par.body if cur in par.body else par.orelse
+            atoms = _split_atoms(par.test, cur in par.body) + atoms
+        elif isinstance(par, ast.For):
+            if cur not in par.body:
+                return None
+            blk = par.body
+        else:
+            return None
+        # what precedes the statement in its block: only guards `if c: continue`
+        pre = []
+        for sib in A.sig_stmts(blk):
+            if sib is cur:
+                break
+            if isinstance(sib, ast.If) and not A.sig_stmts(sib.orelse) and len(A.sig_stmts(sib.body)) == 1 and isinstance(A.sig_stmts(sib.body)[0], ast.Continue):
+                pre += _split_atoms(sib.test, False)
+            elif isinstance(sib, (ast.Assign, ast.AnnAssign, ast.AugAssign, ast.Expr)) and (name is None or name not in A.names_in(sib)):
+                continue  # work done for every element: it does not decide whether the element is taken
+            else:
+                return None
+        after = A.sig_stmts(blk)[A.sig_stmts(blk).index(cur) + 1:]
+        if any(not isinstance(x, ast.Continue) for x in after):
+            return None
+        atoms = pre + atoms
+        if isinstance(par, ast.For):
+            break
+        cur = par
+    loop = par
+    if loop.orelse or not isinstance(loop.target, ast.Name) or not fa.nodes(loop):
+        return None
+    if any(isinstance(x, (ast.Break, ast.Return)) for x in A.walk_local(loop)):
+        return None
+    return (loop, atoms, fa.nodes(loop)[0])
+
+
+def _inline_predicate(fa, t):
+    """`pred(x)` where pred is a function nested in `fa`'s function that only computes a value (assignments to temporaries bound
+    once, one final return): the returned expression with the temporaries substituted and the parameter replaced by the
+    argument; anything else is returned as it is."""
+    import copy
+    if not (isinstance(t, ast.Call) and isinstance(t.func, ast.Name) and t.func.id in fa.fi.nested and not t.keywords):
+        return t
+    sub = fa.fi.nested[t.func.id].node
+    a_ = sub.args
+    if a_.vararg or a_.kwarg or a_.kwonlyargs or len(a_.posonlyargs + a_.args) != len(t.args):
+        return t
+    body = [st for st in sub.body if not (isinstance(st, ast.Expr) and isinstance(st.value, ast.Constant))]
+    if not body or not isinstance(body[-1], ast.Return) or body[-1].value is None:
+        return t
+    env = {p_.arg: arg for p_, arg in zip(a_.posonlyargs + a_.args, t.args)}
+    for st in body[:-1]:
+        tg = st.targets if isinstance(st, ast.Assign) else [st.target] if isinstance(st, ast.AnnAssign) and st.value is not None else None
+        if tg is None or len(tg) != 1 or not isinstance(tg[0], ast.Name) or tg[0].id in env:
+            return t
+        env[tg[0].id] = st.value
+
+    class L(ast.NodeTransformer):
+        def __init__(self, depth):
+            self.depth = depth
+
+        def visit_Name(self, n):
+            if isinstance(n.ctx, ast.Load) and n.id in env and self.depth > 0:
+                return L(self.depth - 1).visit(copy.deepcopy(env[n.id]))
+            return n
+
+    return ast.fix_missing_locations(L(8).visit(copy.deepcopy(body[-1].value)))
 
 
 def _rename(node, old, new):
@@ -616,6 +787,87 @@ def _digest_fed_and_returned(fa, pred):
     return False
 
 
+class _CodeHasher:
+    """The functions that turn a code object into a digest, found by WHAT THEY DO (the reference tree has one function
+    nested in fn_code_hash; it may as well be one or several module-level functions taking the salt and the environment as
+    parameters):
+      outer    FA of fn_code_hash
+      dig      FA of the digester: the function that reads `<its parameter>.co_code` and feeds a hasher
+      obj      the digester's code-object parameter
+      entries  {function name: parameter}: the digester and the functions that hand their parameter on to it (a dispatcher
+               `code object -> digest, anything else -> description`): calling one of them on a code object digests it
+      funcs    {function name: FuncInfo} of all candidates (nested in fn_code_hash, or module-level and reachable from it)"""
+
+    def __init__(self, ck):
+        self.ck = ck
+        self.outer = FA(ck, CH + ".fn_code_hash")
+        mod = ck.repo.module(CH)
+        funcs = dict(self.outer.fi.nested)
+        work = [self.outer.fi.node] + [f.node for f in funcs.values()]
+        while work:
+            cur = work.pop()
+            for c in ast.walk(cur):
+                if isinstance(c, ast.Call) and isinstance(c.func, ast.Name) and c.func.id in mod.functions and c.func.id not in funcs and c.func.id != self.outer.fi.name:
+                    funcs[c.func.id] = mod.functions[c.func.id]
+                    work.append(mod.functions[c.func.id].node)
+        self.funcs = funcs
+        digs = [(f, x.value.id) for f in funcs.values() for x in A.walk_body(f.node)
+                if isinstance(x, ast.Attribute) and x.attr == "co_code" and isinstance(x.value, ast.Name) and x.value.id in f.params]
+        ck.need(len({f.qual for (f, _o) in digs}) == 1, "fn_code_hash: nested code-object hasher not found (expected one function, nested in fn_code_hash or called "
+                                                        "from it, that reads `.co_code` of its parameter; found %d)" % len({f.qual for (f, _o) in digs}))
+        self.dig = FA(ck, digs[0][0])
+        self.obj = digs[0][1]
+        self.entries = {self.dig.fi.name: self.obj}
+        changed = True
+        while changed:
+            changed = False
+            for f in funcs.values():
+                if f.name in self.entries:
+                    continue
+                for c in A.body_calls(f.node):
+                    if isinstance(c.func, ast.Name) and c.func.id in self.entries:
+                        a_ = self.arg(c, c.func.id, self.entries[c.func.id])
+                        if isinstance(a_, ast.Name) and a_.id in f.params:
+                            self.entries[f.name] = a_.id
+                            changed = True
+                            break
+
+    def arg(self, call, fname, param):
+        """the argument bound to `param` in a call of unit function `fname`"""
+        ps = self.funcs[fname].params
+        return A.arg_or_kw(call, ps.index(param), param) if param in ps else None
+
+    def hashes_code(self, call, var):
+        """is `call` an application of the hasher (the digester or a dispatcher in front of it) to the variable `var`?"""
+        if not (isinstance(call, ast.Call) and isinstance(call.func, ast.Name) and call.func.id in self.entries):
+            return False
+        a_ = self.arg(call, call.func.id, self.entries[call.func.id])
+        return isinstance(a_, ast.Name) and a_.id == var
+
+    def stands_for(self, fi, name, _busy=None):
+        """The parameter of fn_code_hash that `name`, read inside unit function `fi`, stands for: a variable of the enclosing
+        fn_code_hash (nested function), or a parameter that every call site inside the unit binds to the same thing."""
+        busy = _busy if _busy is not None else set()
+        if fi is self.outer.fi:
+            return name if name in fi.params else None
+        if name not in fi.params:
+            if fi.parent is not None:
+                return self.stands_for(fi.parent, name, busy)
+            return None
+        if (fi.qual, name) in busy:
+            return "*"
+        busy.add((fi.qual, name))
+        got = set()
+        for caller in [self.outer.fi] + list(self.funcs.values()):
+            for c in A.body_calls(caller.node):
+                if isinstance(c.func, ast.Name) and c.func.id == fi.name and self.funcs.get(fi.name) is fi:
+                    a_ = self.arg(c, fi.name, name)
+                    got.add(self.stands_for(caller, a_.id, busy) if isinstance(a_, ast.Name) else None)
+        busy.discard((fi.qual, name))
+        got.discard("*")
+        return next(iter(got)) if len(got) == 1 else None
+
+
 # --------------------------------------------------------------------------------- C01.R1
 def check_hash_input_coverage(ck, R):
     ck.rule(R, "hash-input coverage: every code-object attribute the interpreter consults when running a function, and "
@@ -625,63 +877,42 @@ def check_hash_input_coverage(ck, R):
             continue
         if a not in CODE_RELEVANT and a not in CODE_DEBUG_ONLY:
             raise AnalysisError("code object attribute %r of this interpreter is not classified in the checker's table" % a)
-    outer = FA(ck, CH + ".fn_code_hash")
-    ck.need("hash_if_code_object" in outer.fi.nested, "fn_code_hash: nested code-object hasher not found")
-    h = FA(ck, outer.fi.nested["hash_if_code_object"])
-    obj = h.fi.params[0]
-    # the variable whose JSON feeds the digest
-    ups = [c for c in h.calls("update")]
-    feed = None
-    for c in ups:
-        # json.dumps(<list>) may be passed directly or through a temporary
-        for d in [x for a_ in c.args for x in _flow(h, a_).values() if isinstance(x, ast.Call) and A.call_attr(x) == "dumps"]:
-            if d.args and isinstance(d.args[0], ast.Name):
-                feed = d.args[0].id
-    ck.need(feed is not None, "hash_if_code_object: no sha256.update(json.dumps(<list>)) found")
+    unit = _CodeHasher(ck)
+    outer, h, obj = unit.outer, unit.dig, unit.obj
+    # what reaches the digest: everything the arguments of `<hasher>.update(...)` / `hashlib.sha256(...)` are computed from,
+    # followed through temporaries, through what is appended to / stored in a local in place, and through loops
+    ups = [c for c in h.calls("update") if isinstance(A.call_recv(c), ast.Name) and c.args and h.nodes(c)]
+    sinks = [(a_, h.nodes(c)[0]) for c in ups + [c for c in h.calls() if A.call_dotted(c) in ("hashlib.sha256", "sha256") and h.nodes(c)] for a_ in c.args]
+    ck.need(bool(sinks), "%s: no digest is fed (<hasher>.update(...) / hashlib.sha256(...))" % h.fi.name)
+    fed_nodes = _backward_slice(h, sinks, control_dependence=False)
     consumed = {}
     narrowed = {}
     NARROWING = {"len", "bool", "hash", "set", "frozenset", "min", "max", "any", "all", "sum", "id", "type"}
-    def scan(expr, where):
-        parents = {}
-        for p_ in ast.walk(expr):
-            for ch in ast.iter_child_nodes(p_):
-                parents[id(ch)] = p_
-        for n in ast.walk(expr):
-            if isinstance(n, ast.Attribute) and isinstance(n.value, ast.Name) and n.value.id == obj and n.attr.startswith("co_"):
-                par = parents.get(id(n))
-                if (isinstance(par, ast.Subscript) and par.value is n) or \
-                        (isinstance(par, ast.Call) and isinstance(par.func, ast.Name) and par.func.id in NARROWING and n in par.args):
-                    # only a part / a summary of the attribute is hashed
-                    narrowed.setdefault(n.attr, par)
-                    continue
-                consumed.setdefault(n.attr, where)
-            if isinstance(n, ast.Call) and A.call_attr(n) == "getattr" and len(n.args) >= 2 and A.norm(n.args[0]) == obj and A.const_str(n.args[1]):
-                consumed.setdefault(A.const_str(n.args[1]), where)
-    def roots(expr):
-        """the expression and the values of the temporaries it is built from (transitively)"""
-        out, seen, work = [expr], set(), [(expr, None)]
-        while work:
-            (e, at) = work.pop()
-            ats = [at] if at is not None else h.nodes(e)
-            for a_ in ats:
-                for n in ast.walk(e):
-                    if isinstance(n, ast.Name) and isinstance(n.ctx, ast.Load) and n.id != feed:
-                        for d in h.df.reaching(a_, n.id):
-                            if d.value is not None and d.kind in ("assign", "aug") and (d.node, d.name) not in seen:
-                                seen.add((d.node, d.name))
-                                out.append(d.value)
-                                work.append((d.value, d.node))
-        return out
 
-    for s in h.stmts(ast.Assign):
-        if any(isinstance(t, ast.Name) and t.id == feed for t in s.targets):
-            for e in roots(s.value):
-                scan(e, s)
-    for c in h.calls("append") + h.calls("extend"):
-        if A.norm(A.call_recv(c)) == feed:
-            for a in c.args:
-                for e in roots(a):
-                    scan(e, c)
+    def node_of(n):
+        st = h.stmt_of(n)
+        ns = h.nodes(st) if st is not None else []
+        return ns[0] if ns else None
+
+    for n in fed_nodes.values():
+        attrs = []
+        if isinstance(n, ast.Attribute) and isinstance(n.value, ast.Name) and n.value.id == obj and n.attr.startswith("co_"):
+            attrs = [n.attr]
+        elif isinstance(n, ast.Call) and A.call_attr(n) == "getattr" and isinstance(n.func, ast.Name) and len(n.args) >= 2 and A.norm(n.args[0]) == obj:
+            # the attribute name: a literal, or a variable ranging over literals (table-driven)
+            nm_alts = _alternatives(h, n.args[1], node_of(n)) if node_of(n) is not None else [(n.args[1], None)]
+            attrs = [A.const_str(e) for (e, _a) in nm_alts if A.const_str(e)] if all(A.const_str(e) for (e, _a) in nm_alts) else []
+        if not attrs:
+            continue
+        par = h.pm.get(n)
+        if (isinstance(par, ast.Subscript) and par.value is n) or \
+                (isinstance(par, ast.Call) and isinstance(par.func, ast.Name) and par.func.id in NARROWING and n in par.args):
+            # only a part / a summary of the attribute is hashed
+            for a_ in attrs:
+                narrowed.setdefault(a_, par)
+            continue
+        for a_ in attrs:
+            consumed.setdefault(a_, n)
     for attr, why in CODE_RELEVANT.items():
         ok = attr in consumed
         if not ok and attr in narrowed:
@@ -691,14 +922,14 @@ def check_hash_input_coverage(ck, R):
             continue
         ck.ob(R, h.key(None, attr), ok, "%s reaches the digest" % attr if ok else
               "%s (%s) is not part of the code hash: an edit that only changes it keeps the version, and a stale result is served" % (attr, why), h.where())
-    # co_consts recursion: some iteration over <obj>.co_consts that maps every element through the hasher
-    # itself (directly, or through a local lambda / def that does nothing but call the hasher on its
-    # argument) feeds the list that is digested
+    # co_consts recursion: some iteration over <obj>.co_consts that maps EVERY element through the hasher itself (the
+    # digester or a dispatcher in front of it; directly, or through a local lambda / def that does nothing but call the
+    # hasher on its argument) reaches the digest - a comprehension, map(), or a list filled by one loop
     def is_hasher_call(call, var, depth=0):
         if not (isinstance(call, ast.Call) and call.args and isinstance(call.args[0], ast.Name) and call.args[0].id == var):
             return False
         f = call.func
-        if isinstance(f, ast.Name) and f.id in (h.fi.name, h.node.name):
+        if unit.hashes_code(call, var):
             return True
         if isinstance(f, ast.Name) and depth < 3:
             # a local alias of the hasher
@@ -714,24 +945,36 @@ def check_hash_input_coverage(ck, R):
                     return True
         return False
 
+    def is_hasher_ref(f):
+        """a one-argument callable that applies the hasher to its argument (for map())"""
+        if isinstance(f, ast.Name) and f.id in unit.entries:
+            fi_ = unit.funcs[f.id]
+            a_ = fi_.node.args
+            required = [x.arg for x in a_.posonlyargs + a_.args][: len(a_.posonlyargs + a_.args) - len(a_.defaults)]
+            return required == [unit.entries[f.id]]
+        if isinstance(f, ast.Lambda) and len(f.args.args) == 1 and isinstance(f.body, ast.Call):
+            return is_hasher_call(f.body, f.args.args[0].arg)
+        return False
+
     rec = False
-    feed_flow = {}
-    for s in h.stmts(ast.Assign):
-        if any(isinstance(t, ast.Name) and t.id == feed for t in s.targets):
-            _flow(h, s.value, None, None, feed_flow)
-    for c in h.calls("append") + h.calls("extend"):
-        if A.norm(A.call_recv(c)) == feed:
-            for a in c.args:
-                _flow(h, a, None, None, feed_flow)
-    for comp in [n for n in feed_flow.values() if isinstance(n, (ast.ListComp, ast.GeneratorExp))]:
-        g0 = comp.generators[0]
-        if len(comp.generators) == 1 and not g0.ifs and isinstance(g0.target, ast.Name) and A.norm(g0.iter) == obj + ".co_consts" \
-                and is_hasher_call(comp.elt, g0.target.id):
+    for n in fed_nodes.values():
+        spec = None
+        if isinstance(n, (ast.ListComp, ast.GeneratorExp)) or (isinstance(n, ast.Name) and isinstance(n.ctx, ast.Load) and h.df.is_local(n.id) and n.id not in h.fi.params):
+            at_ = node_of(n)
+            spec = _collection_spec(h, n, at_) if at_ is not None else None
+        if spec is not None and not spec["atoms"] and h.xnorm(spec["iter"], spec["iter_at"]) == obj + ".co_consts" and is_hasher_call(spec["elt"], spec["var"]):
+            rec = True
+        if isinstance(n, ast.Call) and isinstance(n.func, ast.Name) and n.func.id == "map" and len(n.args) == 2 and node_of(n) is not None \
+                and h.xnorm(n.args[1], node_of(n)) == obj + ".co_consts" and is_hasher_ref(n.args[0]):
             rec = True
     ck.ob(R, h.key(None, "consts-recursive"), rec, "constants are hashed recursively (nested functions, lambdas, comprehensions)" if rec else
           "co_consts is not hashed through the hasher itself: edits inside nested code objects are invisible", h.where())
     # salt / environment
-    ok_env = any(A.norm(c.args[0]) == "environment" for c in ups if c.args) and any("salt" in A.norm(c) for c in ups)
+    def fed(param):
+        """something that stands for fn_code_hash's parameter `param` reaches the digest"""
+        return any(isinstance(x, ast.Name) and isinstance(x.ctx, ast.Load) and unit.stands_for(h.fi, x.id) == param for x in fed_nodes.values())
+
+    ok_env = fed("environment") and fed("salt")
     ck.ob(R, h.key(None, "salt-and-environment"), ok_env, "salt and environment feed the digest" if ok_env else
           "the version salt / environment bytes no longer feed the code digest", h.where())
     # function-level defaults
@@ -807,6 +1050,13 @@ def check_hash_input_coverage(ck, R):
     # some loop replaces the hashed object by its __wrapped__ (whatever the spelling of the loop condition)
     unw = [s_ for s_ in outer.stmts(ast.Assign) if isinstance(s_.value, ast.Attribute) and s_.value.attr == "__wrapped__" and isinstance(s_.value.value, ast.Name)
            and any(isinstance(t, ast.Name) and t.id == s_.value.value.id for t in s_.targets) and outer.enclosing(s_, ast.While) is not None]
+    # ... or inspect.unwrap does it, for the object whose __code__ is read
+    hashed_obj = None
+    if code_reads:
+        subj_ = code_reads[0].args[0] if isinstance(code_reads[0], ast.Call) else code_reads[0].value
+        hashed_obj = subj_.id if isinstance(subj_, ast.Name) else None
+    unw += [s_ for s_ in outer.stmts(ast.Assign) if isinstance(s_.value, ast.Call) and A.call_attr(s_.value) == "unwrap" and len(s_.value.args) == 1
+            and hashed_obj is not None and any(isinstance(t, ast.Name) and t.id == hashed_obj for t in s_.targets)]
     ck.ob(R, outer.key(None, "unwrap"), bool(unw), "decorator wrappers are unwrapped before hashing" if unw else
           "fn_code_hash no longer unwraps __wrapped__ chains", outer.where())
     # MementoFunction.__init__ stores the code hash unless a version is declared
@@ -858,7 +1108,8 @@ def check_rule_kinds_contribute(ck, R):
             ok = "call:fn_code_hash" in deps and "attr:self.src_fn" in deps
             msg = "code hash of the plain function"
         elif nm == "GlobalVariableHashRule":
-            ok = "attr:self.last_value" in deps and "call:sha256" in deps
+            ok = ("attr:self.last_value" in deps and "call:sha256" in deps) or \
+                _digest_fed_and_returned(fa, lambda arg, at: "attr:self.last_value" in fa.df.deps(arg, at))
             msg = "digest of the serialised value"
         elif nm == "UndefinedSymbolHashRule":
             ok = all(r.value is None or A.is_none(r.value) for r in fa.returns())
@@ -893,6 +1144,42 @@ def check_rule_kinds_contribute(ck, R):
 
 
 # --------------------------------------------------------------------------------- C01.R3
+_LIST_MUTATORS = {"sort", "append", "extend", "insert", "remove", "pop", "clear", "reverse", "__setitem__", "__delitem__"}
+
+
+def _sorted_source(fa, e, at, depth=6):
+    """If `e` (evaluated at CFG node `at`) is a SORTED sequence - `sorted(X, ...)` itself, a local alias or a field of self that
+    this function assigned it to, a `list(...)` copy of one, or a `list(X)` copy that was sorted in place (`.sort(...)`, its
+    only change) on every path before this point - returns (the sorted() / .sort() call, X, CFG node at which X is read)."""
+    if depth <= 0 or e is None or at is None:
+        return None
+    if isinstance(e, ast.Call) and isinstance(e.func, ast.Name) and e.func.id == "sorted" and len(e.args) == 1:
+        return (e, e.args[0], at)
+    if isinstance(e, ast.Call) and isinstance(e.func, ast.Name) and e.func.id in ("list", "tuple") and len(e.args) == 1 and not e.keywords:
+        return _sorted_source(fa, e.args[0], at, depth - 1)
+    if isinstance(e, ast.Name):
+        ds = fa.df.reaching(at, e.id)
+        if len(ds) != 1 or ds[0].kind != "assign" or ds[0].value is None:
+            return None
+        d = ds[0]
+        r = _sorted_source(fa, d.value, d.node, depth - 1)
+        if r is not None:
+            return r
+        v = d.value
+        if isinstance(v, ast.Call) and isinstance(v.func, ast.Name) and v.func.id == "list" and len(v.args) == 1 and not v.keywords:
+            muts = [c for c in fa.calls() if isinstance(A.call_recv(c), ast.Name) and A.call_recv(c).id == e.id and A.call_attr(c) in _LIST_MUTATORS]
+            stores = [x for x in A.walk_body(fa.node) if isinstance(x, ast.Subscript) and isinstance(x.ctx, (ast.Store, ast.Del)) and isinstance(x.value, ast.Name) and x.value.id == e.id]
+            if len(muts) == 1 and not stores and A.call_attr(muts[0]) == "sort" and not muts[0].args and fa.nodes(muts[0]) \
+                    and at not in fa.nodes(muts[0]) and fa.cfg.must_pass(fa.nodes(muts[0]), at) and fa.cfg.must_pass([d.node], fa.nodes(muts[0])[0]):
+                return (muts[0], v.args[0], d.node)
+        return None
+    if isinstance(e, ast.Attribute) and isinstance(e.value, ast.Name) and e.value.id == "self":
+        asg = [s_ for s_ in fa.stmts(ast.Assign) if fa.nodes(s_) and any(A.dotted(t) == "self." + e.attr for t in s_.targets)]
+        if len(asg) == 1 and at not in fa.nodes(asg[0]) and fa.cfg.must_pass(fa.nodes(asg[0]), at):
+            return _sorted_source(fa, asg[0].value, fa.nodes(asg[0])[0], depth - 1)
+    return None
+
+
 def _digest_feed(fa):
     """Where the per-rule pieces enter the version digest, whatever the spelling: (loop) a `for` whose body calls
     `<hasher>.update(piece)`, or (join) `<hasher>.update(sep.join(<pieces>))` / `hashlib.sha256(sep.join(<pieces>))` where
@@ -925,6 +1212,19 @@ def _joined(fa, expr, at):
             if spec is not None:
                 return (x, spec)
     return None
+
+
+def _every_iteration_passes(fa, head, nodes):
+    """Does every iteration of the loop headed by CFG node `head` execute one of `nodes` (before it comes back to the head
+    or leaves the loop in any way but an exception)?"""
+    starts = [d for (d, l) in fa.cfg.succ[head] if l == "T"]
+    nodes = set(nodes)
+    if not nodes or not starts:
+        return False
+    left = {d for (d, l) in fa.cfg.succ[head] if l != "T" and l != "exc"}
+    r = fa.cfg.reach(starts, removed=nodes, edge_ok=lambda s_, d_, l_: l_ != "exc")
+    body = fa.cfg.reach(starts, removed={head}, edge_ok=lambda s_, d_, l_: l_ != "exc")
+    return head not in r and fa.cfg.exit not in r and not (r & left) and bool(nodes & body)
 
 
 def _copied_params(fa, expr, at, _seen=None):
@@ -964,15 +1264,18 @@ def check_digest_consumes_rules(ck, R):
     ck.need(feed is not None, "_recompute_version: expected one place that feeds the rule hashes to the digest (a loop updating a hasher, or a hasher over a join of the pieces)")
 
     def all_sorted(it, at):
-        """is the iterated collection exactly sorted(<the result set>)?"""
-        d_ = fa.df.deps(it, at)
-        ok_ = ("call:sorted" in d_ or "call:sort" in d_) and ("local:" + res.id in d_ or any(A.norm(x.value) == "set()" for x in fa.df.reaching(at, res.id)))
-        src = it
-        if isinstance(it, ast.Name):
-            ds = fa.df.reaching(at, it.id)
-            if len(ds) == 1 and ds[0].value is not None:
-                src = ds[0].value
-        return ok_ and isinstance(src, ast.Call) and A.call_attr(src) == "sorted" and [A.norm(a) for a in src.args] == [res.id]
+        """is the iterated collection exactly the result set, sorted (sorted(<set>), or a list copy of it sorted in place;
+        through aliases / self._hash_rules)?"""
+        r_ = _sorted_source(fa, it, at)
+        if r_ is None:
+            return False
+        (_call, src, src_at) = r_
+        if not isinstance(src, ast.Name):
+            return False
+        if src.id == res.id:
+            return True
+        ds = fa.df.reaching(src_at, src.id)
+        return len(ds) == 1 and ds[0].value is not None and A.norm(ds[0].value) == res.id
 
     ok = all_sorted(lp.ast.iter, lp.id) and all_sorted(feed["iter"], feed["iter_at"])
     ck.ob(R, fa.key(lp.ast, "all-rules"), ok, "the digest loop iterates sorted(<all collected rules>)" if ok else
@@ -986,13 +1289,17 @@ def check_digest_consumes_rules(ck, R):
         if isinstance(s_, ast.Assign) and "call:compute_hash" in fa.deps(s_.value):
             for t in s_.targets:
                 if isinstance(t, ast.Attribute) and isinstance(t.value, ast.Name) and t.value.id == lv:
-                    if same_loop or (fa.conditions(s_) == {frozenset()} and not any(isinstance(x, (ast.Break, ast.Return, ast.Continue)) for x in A.walk_local(lp.ast))):
+                    if same_loop or _every_iteration_passes(fa, lp.id, fa.nodes(s_)):
                         hash_attrs.add(t.attr)
     fv = feed["var"]
     piece = feed["piece"]
 
     def is_hash(e):
-        return (same_loop and "call:compute_hash" in fa.deps(e)) or any(isinstance(x, ast.Call) and A.call_attr(x) == "compute_hash" and A.norm(A.call_recv(x)) == fv for x in ast.walk(e)) \
+        try:
+            e = fa.expand(e, fa.nodes(e)[0]) if fa.nodes(e) else e   # a temporary (walrus, alias) that holds the rule's hash field
+        except AnalysisError:
+            pass
+        return (same_loop and "call:compute_hash" in fa.deps(piece)) or any(isinstance(x, ast.Call) and A.call_attr(x) == "compute_hash" and A.norm(A.call_recv(x)) == fv for x in ast.walk(e)) \
             or any(isinstance(x, ast.Attribute) and x.attr in hash_attrs and isinstance(x.value, ast.Name) and x.value.id == fv for x in ast.walk(e))
 
     okh = True
@@ -1008,14 +1315,14 @@ def check_digest_consumes_rules(ck, R):
             # decided on PATH CONDITIONS: the update is reached exactly when the hash is not None (whether written
             # as `if h is not None: update`, `if h is None: continue`, or nested), and an iteration is abandoned
             # early only when the hash is None; the loop is never left early
-            cu = fa.conditions(ups[0])
-            okh = cu is not None and len(cu) == 1 and len(next(iter(cu))) == 1 and all(l[0] in none_lits and l[1] is False for l in next(iter(cu)))
+            cu = _conditions(fa, ups[0])
+            okh = cu is not None and len(cu) == 1 and len(next(iter(cu))) == 1 and all(_no_walrus(l[0]) in none_lits and l[1] is False for l in next(iter(cu)))
             for s_ in A.walk_local(fl):
                 if isinstance(s_, (ast.Break, ast.Return)):
                     okh = False
                 if isinstance(s_, ast.Continue):
-                    cc = fa.conditions(s_)
-                    okh = okh and cc is not None and all(any(l[0] in none_lits and l[1] is True for l in conj) for conj in cc)
+                    cc = _conditions(fa, s_)
+                    okh = okh and cc is not None and all(any(_no_walrus(l[0]) in none_lits and l[1] is True for l in conj) for conj in cc)
     else:
         # the pieces are collected (comprehension / filling loop) and digested at once: the only filter is `hash is None`,
         # and the collection is made after every rule was given its hash
@@ -1066,7 +1373,129 @@ def check_digest_consumes_rules(ck, R):
           "the traversal does not start from the function's own rule (obj=self, first_level=True, root_fn=self)", fa.where(root))
 
 
+def check_recompute_from_scratch(ck, R):
+    """A recomputation of the version is a computation FROM SCRATCH: what is digested for a rule is the value that rule's
+    compute_hash() returns in this very recomputation, on every path.  A value remembered from an earlier evaluation (a
+    table shared between functions, the rule's own field as it was) is only as fresh as whatever invalidates it; the
+    generation counter does not: it advances when a scan notices a change, not when the change happens."""
+    ck.rule(R, "a recomputation is from scratch: the hash digested for a rule is what its compute_hash() returns in this very "
+               "recomputation, on every path", 1)
+    fa = FA(ck, MF + "._recompute_version")
+    feed = _digest_feed(fa)
+    ck.need(feed is not None, "_recompute_version: expected one place that feeds the rule hashes to the digest (a loop updating a hasher, or a hasher over a join of the pieces)")
+    fv, piece = feed["var"], feed["piece"]
+    feed_nodes = fa.nodes(piece) or [feed["iter_at"]]
+    loops = [n for n in fa.cfg.nodes if n.kind == "for" and isinstance(n.ast.target, ast.Name) and n.id in fa.cfg.reachable_nodes()]
+    loop_vars = {n.ast.target.id for n in loops}
+
+    def computed_now(e):
+        """does the value of `e` come from <rule>.compute_hash() of a rule the function is iterating over?"""
+        return any(isinstance(x, ast.Call) and A.call_attr(x) == "compute_hash" and isinstance(A.call_recv(x), ast.Name) and A.call_recv(x).id in loop_vars
+                   for x in ast.walk(e))
+
+    def alternatives(e, at, depth=4):
+        """_alternatives, with `a or b` / `a and b` giving each operand that can be the result"""
+        out = []
+        for (x, a_) in _alternatives(fa, e, at):
+            if isinstance(x, ast.BoolOp) and depth > 0:
+                for v in x.values:
+                    out += alternatives(v, a_, depth - 1)
+            else:
+                out.append((x, a_))
+        return out
+
+    def assigned_before(asg_nodes, at, read):
+        """is the rule's field assigned in this recomputation before it is read at `at`: earlier in the same iteration when the read
+        is in a loop over the rules that assigns it, else by a loop over the same collection that assigns it in every iteration"""
+        lp_ = fa.enclosing(read, (ast.For, ast.AsyncFor)) if hasattr(read, "lineno") and fa.pm.get(read) is not None else None
+        while lp_ is not None and not (isinstance(lp_.target, ast.Name) and fa.nodes(lp_) and set(asg_nodes) & fa.cfg.reach([fa.nodes(lp_)[0]], removed=(), include_start=False)
+                                       and any(fa.inside(fa.cfg.node(i).ast, lp_) for i in asg_nodes)):
+            lp_ = fa.enclosing(lp_, (ast.For, ast.AsyncFor))
+        if lp_ is not None:
+            head = fa.nodes(lp_)[0]
+            return fa.cfg.must_pass(asg_nodes, at, start=head, edge_ok=lambda s_, d_, l_, head=head: d_ != head)
+        same = [n.id for n in loops if fa.xnorm(n.ast.iter, n.id) == fa.xnorm(feed["iter"], feed["iter_at"])]
+        return any(_every_iteration_passes(fa, h_, asg_nodes) and fa.cfg.must_pass([h_], at) for h_ in same)
+
+    stale = []
+
+    def origin(e, at, read, depth=5):
+        """follow one thing read for the piece back to where its value was made; records what is not made by compute_hash() now"""
+        for (x, a_) in alternatives(e, at):
+            if computed_now(x):
+                continue
+            if isinstance(x, ast.Attribute) and isinstance(x.value, ast.Name) and (x.value.id in loop_vars or x.value.id == fv) and depth > 0:
+                asg = [s_ for s_ in fa.stmts(ast.Assign) if fa.nodes(s_) and any(isinstance(t, ast.Attribute) and t.attr == x.attr and isinstance(t.value, ast.Name)
+                                                                                 and t.value.id in loop_vars for t in s_.targets)]
+                if not asg:
+                    stale.append((x, "`%s`, which this recomputation never assigns" % A.norm(x)))
+                    continue
+                if not assigned_before(fa.nodes_all(asg), a_, x if fa.pm.get(x) is not None else read):
+                    stale.append((x, "`%s` as it was before this recomputation (on some path it is read before being assigned)" % A.norm(x)))
+                    continue
+                for s_ in asg:
+                    origin(s_.value, fa.nodes(s_)[0], s_.value, depth - 1)
+                continue
+            stale.append((x, "`%s`%s" % (A.short(x, 50), (" (= `%s`)" % fa.xnorm(x, a_)[:90]) if fa.xnorm(x, a_) != A.norm(x) else "")))
+
+    n_read = 0
+    for x in ast.walk(piece):
+        if isinstance(x, ast.Attribute) and isinstance(x.value, ast.Name) and x.value.id == fv and isinstance(x.ctx, ast.Load) \
+                and not (isinstance(fa.pm.get(x), ast.Call) and fa.pm.get(x).func is x):
+            n_read += 1
+            for at in feed_nodes:
+                origin(x, at, x)
+        elif isinstance(x, ast.Name) and isinstance(x.ctx, ast.Load) and x.id != fv and fa.df.is_local(x.id) and x.id not in fa.fi.params:
+            n_read += 1
+            for at in feed_nodes:
+                origin(x, at, x)
+        elif isinstance(x, ast.Call) and A.call_attr(x) == "compute_hash":
+            n_read += 1
+    ck.need(n_read > 0, "_recompute_version: what is digested for a rule (`%s`) reads neither the rule nor a local" % A.short(piece, 50))
+    ok = not stale
+    ck.ob(R, fa.key(feed["stmt"], "hash-computed-now"), ok, "every rule's hash is computed in the recomputation that digests it" if ok else
+          "_recompute_version can digest for a rule %s instead of what rule.compute_hash() returns now: a value remembered from an earlier evaluation "
+          "(per generation, per rule key ...) is stale as soon as a tracked variable is re-bound or a helper redefined - nothing advances the generation "
+          "until a scan notices - so a function that recomputes without having scanned adopts the old hash, and its freshly collected rules then "
+          "report 'unchanged' for ever" % stale[0][1] if stale else "", fa.where(stale[0][0] if stale and hasattr(stale[0][0], "lineno") else feed["stmt"]))
+
+
 # --------------------------------------------------------------------------------- C01.R4
+def _set_additions(fa, res):
+    """Every place where elements are added to the set held by parameter / local `res`: [(AST node of the addition, [element
+    expressions] or None when the elements cannot be listed)] - `res.add(x)`, `res.update([x, y])` / `res.update({x})`,
+    `res |= {x}` alike."""
+    out = []
+    for c in fa.calls():
+        if A.norm(A.call_recv(c)) != res:
+            continue
+        if A.call_attr(c) == "add" and len(c.args) == 1:
+            out.append((c, [c.args[0]]))
+        elif A.call_attr(c) == "update":
+            elts = []
+            for a_ in c.args:
+                if isinstance(a_, (ast.List, ast.Set, ast.Tuple)) and not any(isinstance(x, ast.Starred) for x in a_.elts):
+                    elts += a_.elts
+                else:
+                    elts = None
+                    break
+            out.append((c, elts))
+    for st in fa.stmts(ast.AugAssign):
+        if isinstance(st.target, ast.Name) and st.target.id == res and isinstance(st.op, ast.BitOr):
+            v = st.value
+            out.append((st, list(v.elts) if isinstance(v, (ast.Set, ast.List, ast.Tuple)) and not any(isinstance(x, ast.Starred) for x in v.elts) else None))
+    return out
+
+
+def _orderless(e):
+    """`e` without the wrappers that only fix an order or make a copy (sorted / list / tuple / set / frozenset / reversed / iter
+    of one collection): the same elements are iterated"""
+    while isinstance(e, ast.Call) and isinstance(e.func, ast.Name) and e.func.id in ("sorted", "list", "tuple", "set", "frozenset", "reversed", "iter") \
+            and len(e.args) == 1 and not isinstance(e.args[0], ast.Starred):
+        e = e.args[0]
+    return e
+
+
 def check_descent_complete(ck, R):
     ck.rule(R, "transitive descent is complete: memento rules visit required and detected dependencies, plain-function "
                "rules every dotted name; every resolved rule is descended into; the only pruning is 'already collected', "
@@ -1085,7 +1514,10 @@ def check_descent_complete(ck, R):
             if l is None or id(l) not in ln or sym is None or not isinstance(l.target, ast.Name) or A.norm(sym) != l.target.id:
                 out.append((c, l, set()))
                 continue
-            out.append((c, l, _sources(fx, l.iter, ln[id(l)])))
+            srcs = set()
+            for (e_, a_) in _alternatives(fx, _orderless(l.iter), ln[id(l)]):
+                srcs.add(fx.xnorm(_orderless(e_), a_))
+            out.append((c, l, srcs))
         return out
 
     mv = visits(m)
@@ -1106,9 +1538,9 @@ def check_descent_complete(ck, R):
     # pruning of memento rules: only `self in result`.  Decided on PATH CONDITIONS: the rule joins the set, and
     # every dependency is visited, exactly when the rule was not collected before (guard clause, nesting and
     # merged tests alike); the visiting loops are never left early
-    adds = [c for c in m.calls("add") if A.norm(A.call_recv(c)) == "result" and [A.norm(a) for a in c.args] == ["self"]]
+    adds = [c for (c, el) in _set_additions(m, "result") if el is not None and [A.norm(a) for a in el] == ["self"]]
     want_m = {("self in result", False)}
-    okp = bool(adds) and all(_single_conj(m.conditions(c)) == want_m for c in adds + [c for (c, l, s_) in mv])
+    okp = bool(adds) and all(_single_conj(_conditions(m, c)) == want_m for c in adds + [c for (c, l, s_) in mv])
     okp = okp and not any(isinstance(x, (ast.Break, ast.Return, ast.Continue)) for (c, l, s_) in mv if l is not None
                           for lo in [l] + [p_ for p_ in m.stmts((ast.For, ast.While)) if m.inside(l, p_)] for x in A.walk_local(lo))
     ck.ob(R, m.key(None, "pruning"), okp, "memento rules are pruned only when already collected (never by package)" if okp else
@@ -1118,11 +1550,11 @@ def check_descent_complete(ck, R):
     okn = len(nv) == 1 and nv[0][2] == {"list_dotted_names(self.src_fn)"}
     ck.ob(R, n.key(None, "dotted-names"), okn, "plain functions are descended through every dotted name of their source" if okn else
           "a plain-function rule no longer visits list_dotted_names(src_fn)", n.where())
-    nadds = [c for c in n.calls("add") if A.norm(A.call_recv(c)) == "result" and [A.norm(a) for a in c.args] == ["self"]]
+    nadds = [c for (c, el) in _set_additions(n, "result") if el is not None and [A.norm(a) for a in el] == ["self"]]
     seen_lits = set()
     okt = True
     for c in nadds + [c for (c, l, s_) in nv]:
-        lits = _single_conj(n.conditions(c))
+        lits = _single_conj(_conditions(n, c))
         if lits is None:
             okt = False
             seen_lits.add("<several path classes>")
@@ -1136,7 +1568,10 @@ def check_descent_complete(ck, R):
     okadd = bool(nadds)
     ck.ob(R, n.key(None, "adds-self"), okadd, "the plain-function rule joins the rule set" if okadd else "the plain-function rule no longer adds itself", n.where())
     g = FA(ck, CH + ".GlobalVariableHashRule.collect_transitive_dependencies")
-    okg = bool([c for c in g.calls("add") if [A.norm(a) for a in c.args] == ["self"]]) and not g.stmts(ast.If)
+    gres = g.fi.params[1] if len(g.fi.params) > 1 else "result"
+    gadds = [c for (c, el) in _set_additions(g, gres) if el is not None and "self" in [A.norm(a) for a in el]]
+    # on every path to the normal exit the rule has joined the set
+    okg = bool(gadds) and g.cfg.path(g.cfg.entry, g.cfg.exit, removed=set(g.nodes_all(gadds)), edge_ok=lambda s_, d_, l_: l_ != "exc") is None
     ck.ob(R, g.key(None, "adds-self"), okg, "variable rules always join the rule set" if okg else "a variable rule can be left out of the rule set", g.where())
     # the traversal's parameters other than the accumulator are read-only (mutating the shared
     # scope / blacklist makes the rule set depend on the visiting order of a set)
@@ -1230,14 +1665,39 @@ def check_descent_complete(ck, R):
                 return "<blacklist identity>"
         return A.norm(t_)
 
-    for x in rsa.cfg.nodes:
-        if x.kind == "test" and x.id in rsa.cfg.reachable_nodes():
-            for atom in (A.conj_atoms(x.ast) if not (isinstance(x.ast, ast.BoolOp) and isinstance(x.ast.op, ast.Or)) else A.test_atoms(x.ast)):
-                tests.append(classify(atom, x.id))
+    # decided on the PATH CLASSES of resolve_symbol: the literals of the branch tests taken on the way to the exit, result flags
+    # (`blacklisted = True ... if not blacklisted`) read as the condition that set them
+    rs_paths = _exit_paths(rsa)
+    ck.need(rs_paths is not None, "resolve_symbol: too many paths")
+    sites = _literal_sites(rsa)
+    for text in sorted({t for (_p, lits) in rs_paths for t in lits}):
+        (e_, at_) = sites.get(text, (_parse_lit(text), None))
+        if e_ is None:
+            tests.append(text)
+        elif at_ is None:
+            # a literal made up on the path: judged by its text alone
+            names = {x.id for x in ast.walk(e_) if isinstance(x, ast.Name)}
+            loops_bl = {x.ast.target.id for x in rsa.cfg.nodes if x.kind == "for" and isinstance(x.ast.target, ast.Name) and rsa.xnorm(x.ast.iter, x.id) == "blacklist"}
+            if isinstance(e_, ast.Compare) and len(e_.ops) == 1 and isinstance(e_.ops[0], ast.Is) and A.is_none(e_.comparators[0]) \
+                    and any(isinstance(x, ast.Call) and A.call_attr(x) == "try_resolve" for x in ast.walk(e_.left)):
+                tests.append("<try_resolve result> is not None")
+            elif isinstance(e_, ast.Compare) and len(e_.ops) == 1 and isinstance(e_.ops[0], ast.Is) and len(names) == 2 and names & loops_bl and names & params:
+                tests.append("<blacklist identity>")
+            else:
+                tests.append(text)
+        else:
+            tests.append(classify(e_, at_))
     okb = set(tests) <= {"<blacklist identity>", "<try_resolve result> is not None"}
+    # every strategy is asked: one loop, or one comprehension / generator, over HashRule.all_rules that calls try_resolve
     lp = [x for x in rsa.cfg.nodes if x.kind == "for" and any(rsa.enclosing(c, (ast.For, ast.AsyncFor)) is x.ast for c in rsa.calls("try_resolve"))]
+    scans = [(x.ast.iter, x.id) for x in lp]
+    for st_ in rsa.stmts():
+        for c_ in (A.walk_local(st_) if rsa.nodes(st_) and not isinstance(st_, (ast.If, ast.For, ast.While, ast.Try, ast.With)) else []):
+            if isinstance(c_, (ast.GeneratorExp, ast.ListComp)) and len(c_.generators) == 1 and any(isinstance(t, ast.Call) and A.call_attr(t) == "try_resolve" for t in ast.walk(c_)):
+                scans.append((c_.generators[0].iter, rsa.nodes(st_)[0]))
     others = [x for x in rsa.cfg.nodes if x.kind == "for" and x not in lp and rsa.xnorm(x.ast.iter, x.id) != "blacklist"]
-    okb = okb and len(lp) == 1 and rsa.xnorm(lp[0].ast.iter, lp[0].id) == "HashRule.all_rules" and not others and not rsa.stmts(ast.While)
+    from_strategy = any(r_.value is not None and rsa.nodes(r_) and "call:try_resolve" in rsa.df.deps(r_.value, rsa.nodes(r_)[0]) for r_ in rsa.returns())
+    okb = okb and len(scans) == 1 and rsa.xnorm(scans[0][0], scans[0][1]) == "HashRule.all_rules" and not others and not rsa.stmts(ast.While) and from_strategy
     ck.ob(R, rsa.key(None, "blacklist-by-identity"), okb, "symbols are excluded only by blacklist identity; all rule strategies are tried" if okb else
           "resolve_symbol excludes symbols by something other than blacklist identity, or does not try every strategy: %s" % tests, rsa.where())
     # rule strategies registered
@@ -1277,6 +1737,8 @@ def check_enforcement(ck, R):
             val = fx.nodes_all([c for c in fx.calls("_validate_dependency") if A.norm(A.call_recv(c)) == "self"])
             for c in fx.calls():
                 rc, nm = A.call_recv(c), A.call_attr(c)
+                if isinstance(rc, ast.Name) and rc.id != "self" and fx.nodes(c):
+                    rc = fx.expand(rc, fx.nodes(c)[0])   # `base = super(...)` ... `base.call(...)`
                 via_super = nm in ENTRIES and isinstance(rc, ast.Call) and A.call_attr(rc) == "super"
                 via_self = nm in ENTRIES and isinstance(rc, ast.Name) and rc.id == "self"
                 if not (via_super or via_self or nm in RUN) or not fx.nodes(c):
@@ -1308,7 +1770,7 @@ def check_enforcement(ck, R):
     rs = [r for r in v.stmts(ast.Raise) if isinstance(r.exc, ast.Call) and A.call_attr(r.exc) == "UndeclaredDependencyError"]
     okr = len(rs) == 1
     valid = None
-    conds = v.conditions(rs[0]) if okr else None
+    conds = _conditions(v, rs[0]) if okr else None
     extra = []
     if okr and conds is not None and len(conds) == 1:
         lits = set(next(iter(conds)))
@@ -1332,13 +1794,23 @@ def check_enforcement(ck, R):
     if valid is not None and rs:
         g = v.enclosing(rs[0], ast.If)
         dv = set()
-        for n in v.cfg.nodes:
-            if n.kind != "test":
-                continue
+        from types import SimpleNamespace as _NS
+        # wherever the membership of the callee in the valid set is asked (a branch test, or a condition held in a local)
+        sites = [_NS(ast=n.ast, id=n.id) for n in v.cfg.nodes if n.kind == "test"]
+        sites += [_NS(ast=st_.value, id=v.nodes(st_)[0]) for st_ in v.stmts((ast.Assign, ast.AnnAssign)) if getattr(st_, "value", None) is not None and v.nodes(st_)]
+        for n in sites:
             for x in ast.walk(n.ast):
                 if isinstance(x, ast.Compare) and len(x.ops) == 1 and isinstance(x.ops[0], (ast.In, ast.NotIn)) \
                         and v.xnorm(x.left, n.id) == "self.fn_reference().qualified_name":
                     dv |= v.df.deps(x.comparators[0], n.id)
+                    # ... and what is put into that set in place (a set filled by a loop, .update(...), |=)
+                    for y in _backward_slice(v, [(x.comparators[0], n.id)], control_dependence=False, nested=False).values():
+                        if isinstance(y, ast.Call) and A.call_attr(y):
+                            dv.add("call:" + A.call_attr(y))
+                            if A.call_attr(y) == "getattr" and len(y.args) >= 2 and A.const_str(y.args[1]):
+                                dv.add("getattr:" + A.const_str(y.args[1]))
+                        elif isinstance(y, ast.Attribute) and isinstance(y.ctx, ast.Load) and A.dotted(y):
+                            dv.add("attr:" + A.dotted(y))
         okv = "call:transitive_memento_fn_dependencies" in dv and "call:dependencies" in dv and \
             any(d.endswith("memento_fn") and d.startswith(("attr:", "getattr:")) for d in dv)
         # what else may flow into the valid set: function references found among the caller's own arguments
@@ -1444,7 +1916,46 @@ def _text_is_canonical(fa, e, at, renderers, depth=5):
         return _text_is_canonical(fa, e.body, at, renderers, depth) and _text_is_canonical(fa, e.orelse, at, renderers, depth)
     if isinstance(e, ast.BinOp) and isinstance(e.op, (ast.Add, ast.Mod)):
         return A.str_parts(e) is not None or (_text_is_canonical(fa, e.left, at, renderers, depth) and _text_is_canonical(fa, e.right, at, renderers, depth))
+    if isinstance(e, ast.Name) and depth > 0 and _bound_in_expression(fa, e):
+        # a variable of a comprehension: it holds the elements of what is iterated - canonical text if those elements were
+        # made by a renderer (`pairs = sorted((render(k), render(v)) for ...)` ... `for (k, v) in pairs`)
+        cur, gen = fa.pm.get(e), None
+        while cur is not None and not isinstance(cur, ast.stmt) and gen is None:
+            if isinstance(cur, (ast.ListComp, ast.SetComp, ast.GeneratorExp, ast.DictComp)):
+                gen = next((g for g in cur.generators if e.id in {x.id for x in ast.walk(g.target) if isinstance(x, ast.Name)}), None)
+            cur = fa.pm.get(cur)
+        if gen is None:
+            return False
+        idx = None
+        if isinstance(gen.target, (ast.Tuple, ast.List)):
+            idx = next((i for i, x in enumerate(gen.target.elts) if isinstance(x, ast.Name) and x.id == e.id), None)
+            if idx is None:
+                return False
+        it, it_at = gen.iter, at
+        for _ in range(6):
+            it = _orderless(it)
+            if isinstance(it, ast.Name) and not _bound_in_expression(fa, it):
+                ds = fa.df.reaching(it_at, it.id)
+                if len(ds) == 1 and ds[0].kind == "assign" and ds[0].value is not None:
+                    it, it_at = ds[0].value, ds[0].node
+                    continue
+            break
+        if isinstance(it, ast.Call) and isinstance(it.func, ast.Name) and it.func.id == "map" and len(it.args) == 2 and idx is None:
+            return isinstance(it.args[0], ast.Name) and it.args[0].id in renderers
+        if isinstance(it, (ast.ListComp, ast.GeneratorExp, ast.SetComp)):
+            elt = it.elt
+            if idx is not None:
+                if not (isinstance(elt, ast.Tuple) and idx < len(elt.elts)):
+                    return False
+                elt = elt.elts[idx]
+            return _text_is_canonical(fa, elt, it_at, renderers, depth - 1)
+        return False
     if isinstance(e, ast.Name) and depth > 0 and not _bound_in_expression(fa, e):
+        ds = fa.df.reaching(at, e.id)
+        if ds and any(d.kind == "aug" for d in ds):
+            # text built up in steps (`s = <text>` ... `s += <text>`): canonical if every step is
+            return all(d.kind in ("assign", "aug") and d.value is not None and (d.kind != "aug" or isinstance(d.stmt.op, ast.Add))
+                       and _text_is_canonical(fa, d.value, d.node, renderers, depth - 1) for d in ds)
         alts_ = _alternatives(fa, e, at)
         if all(not (isinstance(x, ast.Name) and x.id == e.id) for (x, _a) in alts_):
             return all(_text_is_canonical(fa, x, a_, renderers, depth - 1) for (x, a_) in alts_)
@@ -1558,26 +2069,27 @@ def check_determinism_taint(ck, R):
           "ENVIRONMENT_HASH_BYTES depends on the machine / process or is dumped without sorted keys", cfgm.relpath)
     sinks += 1
     # constants: repr only after canonicalisation of sets
-    outer = FA(ck, CH + ".fn_code_hash")
-    h = FA(ck, outer.fi.nested["hash_if_code_object"])
-    obj = h.fi.params[0]
-    for r in h.returns():
-        v = r.value
-        if isinstance(v, ast.Call) and A.call_attr(v) in ("repr", "str", "format") and v.args and A.norm(v.args[0]) == obj:
-            ck.ob(R, h.key(r, "const-repr"), False,
-                  "code constants are serialised with repr(): a frozenset constant (from `x in {...}`) prints in hash-seed order, "
-                  "so the version differs between processes", h.where(r))
-        elif isinstance(v, ast.Call) and isinstance(v.func, ast.Name) and v.args and A.norm(v.args[0]) == obj and A.call_attr(v) != h.fi.name:
-            ok = _stable_repr_function(ck, v.func.id)
-            ck.ob(R, h.key(r, "const-repr"), ok, "constants go through %s, which sorts set elements" % v.func.id if ok else
-                  "constants are serialised by %s, which does not canonicalise set-valued constants" % v.func.id, h.where(r))
+    unit = _CodeHasher(ck)
+    outer = unit.outer
+    entry_fas = [(FA(ck, unit.funcs[nm_]), prm) for nm_, prm in sorted(unit.entries.items())]
+    for (h, obj) in entry_fas:
+        for r in h.returns():
+            v = r.value
+            if isinstance(v, ast.Call) and A.call_attr(v) in ("repr", "str", "format") and v.args and A.norm(v.args[0]) == obj:
+                ck.ob(R, h.key(r, "const-repr"), False,
+                      "code constants are serialised with repr(): a frozenset constant (from `x in {...}`) prints in hash-seed order, "
+                      "so the version differs between processes", h.where(r))
+            elif isinstance(v, ast.Call) and isinstance(v.func, ast.Name) and v.args and A.norm(v.args[0]) == obj and A.call_attr(v) not in unit.entries:
+                ok = _stable_repr_function(ck, v.func.id)
+                ck.ob(R, h.key(r, "const-repr"), ok, "constants go through %s, which sorts set elements" % v.func.id if ok else
+                      "constants are serialised by %s, which does not canonicalise set-valued constants" % v.func.id, h.where(r))
     # the renderers of hashed text are not memoised by equality: `(3, 1, 2) == (3.0, 1.0, 2.0)` and both are
     # tuples, so even a typed lru_cache (typed=True looks at the type of the argument itself only)
     # hands the text rendered for the first to the second; which of two such constants is rendered
     # first depends on definition / import order, i.e. on the process
     n_cached = 0
     mod_funcs = ck.repo.module(CH).functions
-    roots = {A.call_attr(r.value) for r in h.returns() if isinstance(r.value, ast.Call) and isinstance(r.value.func, ast.Name)} & set(mod_funcs)
+    roots = {A.call_attr(r.value) for (h, _o) in entry_fas for r in h.returns() if isinstance(r.value, ast.Call) and isinstance(r.value.func, ast.Name)} & set(mod_funcs)
     closure = set(roots) | {"fn_code_hash"}
     work = list(closure)
     while work:
@@ -1603,7 +2115,7 @@ def check_determinism_taint(ck, R):
     # test on the path has established a type whose text is canonical; anything else goes through the renderer
     # recursively or is described by names
     n_sites = 0
-    for fi in [f_ for f_ in ck.repo.module(CH).all_funcs() if f_.parent is None and f_.cls is None and f_.name in closure - {"fn_code_hash"}]:
+    for fi in [f_ for f_ in ck.repo.module(CH).all_funcs() if f_.parent is None and f_.cls is None and f_.name in closure - {"fn_code_hash"} - set(unit.entries)]:
         fr = FA(ck, fi)
         for (site, operand) in _rendered_operands(fr):
             st = fr.stmt_of(site)
@@ -1614,7 +2126,7 @@ def check_determinism_taint(ck, R):
                 continue
             n_sites += 1
             subject = fr.xnorm(operand, at) if not _bound_in_expression(fr, operand) else None
-            conds = fr.conditions(st) if subject is not None else None
+            conds = _conditions(fr, st) if subject is not None else None
             okg = conds is not None and bool(conds) and all(any(pol and _scalar_type_literal(txt, subject) for (txt, pol) in conj) for conj in conds)
             ck.ob(R, fr.key(st, "own-text-only-of-scalars:" + A.norm(operand)[:30]), okg,
                   "`%s` is rendered with its own text only where it is known to be a scalar" % A.short(operand, 30) if okg else
@@ -1659,27 +2171,138 @@ def check_determinism_taint(ck, R):
     fnm = ck.repo.try_func(CH + ".NonMementoFunctionHashRule._function_name")
     if fnm is not None:
         f3 = FA(ck, fnm)
-        # decided on PATH CONDITIONS: the statements that put the symbol into the name are executed whenever the
-        # qualified name carries one of the two markers (whatever the spelling of the test; unconditionally is fine too)
+        # decided on PATH CLASSES: on every path to a return, and for every way a conditional expression on it can come out, the
+        # returned name contains the symbol unless the path has established that the qualified name carries neither marker
         sym = f3.fi.params[1] if len(f3.fi.params) > 1 else "symbol"
-        appends = [s_ for s_ in f3.stmts((ast.AugAssign, ast.Assign, ast.Return)) if getattr(s_, "value", None) is not None and sym in A.names_in(s_.value) and f3.nodes(s_)]
-        have = set()
-        for s_ in appends:
-            have |= f3.conditions(s_) or set()
-        qn = None
-        for x in A.walk_body(f3.node):
-            if isinstance(x, ast.Attribute) and x.attr == "__qualname__":
-                qn = A.norm(x)
-        okm = False
-        if appends and qn is not None:
-            from .keys import dnf_compare
-            want = {frozenset({("'<lambda>' in " + qn, True)}), frozenset({("'<locals>' in " + qn, True)})}
-            r_ = dnf_compare(want, have)
-            okm = bool(r_) and r_[0]
+        MARKERS = {"<lambda>", "<locals>"}
+        p3 = _exit_paths(f3)
+        ck.need(p3 is not None, "_function_name: too many paths")
+
+        def absent(conj):
+            """the markers a conjunction of literals says are NOT in the qualified name"""
+            out_ = set()
+            for (txt, pol) in conj:
+                if pol:
+                    continue
+                e_ = _parse_lit(txt)
+                if isinstance(e_, ast.Compare) and len(e_.ops) == 1 and isinstance(e_.ops[0], ast.In) and A.const_str(e_.left) in MARKERS \
+                        and A.norm(e_.comparators[0]).endswith("__qualname__"):
+                    out_.add(A.const_str(e_.left))
+                if isinstance(e_, ast.Call) and A.norm(e_.func) == "any" and len(e_.args) == 1 and isinstance(e_.args[0], (ast.GeneratorExp, ast.ListComp)) \
+                        and len(e_.args[0].generators) == 1 and not e_.args[0].generators[0].ifs:
+                    g_, el_ = e_.args[0].generators[0], e_.args[0].elt
+                    if isinstance(g_.iter, (ast.Tuple, ast.List, ast.Set)) and isinstance(g_.target, ast.Name) and isinstance(el_, ast.Compare) and len(el_.ops) == 1 \
+                            and isinstance(el_.ops[0], ast.In) and A.norm(el_.left) == g_.target.id and A.norm(el_.comparators[0]).endswith("__qualname__"):
+                        out_ |= {A.const_str(x) for x in g_.iter.elts if A.const_str(x)}
+            return out_
+
+        def ways(e_, pth, idx, depth=8):
+            """[(extra literals, does the symbol flow in)] for the value of `e_` evaluated at position idx of the path"""
+            nid = pth[idx]
+            if depth <= 0:
+                return [([], sym in A.names_in(e_))]
+            if isinstance(e_, ast.IfExp):
+                out_ = []
+                for pol, arm in ((True, e_.body), (False, e_.orelse)):
+                    for alt in f3._alts(e_.test, nid, pol):
+                        out_ += [(alt + l_, h_) for (l_, h_) in ways(arm, pth, idx, depth - 1)]
+                return out_
+            if isinstance(e_, ast.Name):
+                if not isinstance(e_.ctx, ast.Load):
+                    return [([], False)]
+                for k in range(idx - 1, -1, -1):
+                    ds = [d for d in f3.df.gen.get(pth[k], []) if d.name == e_.id]
+                    if not ds:
+                        continue
+                    d = ds[0]
+                    if d.value is None:
+                        return [([], False)]
+                    cur = ways(d.value, pth, k, depth - 1)
+                    if d.kind == "aug":
+                        prev = ways(e_, pth, k, depth - 1)
+                        return [(l1 + l2, h1 or h2) for (l1, h1) in prev for (l2, h2) in cur]
+                    return cur
+                return [([], e_.id == sym)]
+            out_ = [([], False)]
+            for ch in ast.iter_child_nodes(e_):
+                if isinstance(ch, ast.expr) and any(isinstance(x, (ast.Name, ast.IfExp)) for x in ast.walk(ch)):
+                    sub = ways(ch, pth, idx, depth - 1)
+                    out_ = [(l1 + l2, h1 or h2) for (l1, h1) in out_ for (l2, h2) in sub][:64]
+                elif isinstance(ch, ast.keyword) or isinstance(ch, ast.FormattedValue):
+                    sub = ways(ch.value, pth, idx, depth - 1)
+                    out_ = [(l1 + l2, h1 or h2) for (l1, h1) in out_ for (l2, h2) in sub][:64]
+            return out_
+
+        okm = bool(p3)
+        n_with = 0
+        for (pth, lits) in p3:
+            ridx = next((k for k in range(len(pth) - 1, -1, -1) if isinstance(f3.cfg.node(pth[k]).ast, ast.Return)), None)
+            if ridx is None or f3.cfg.node(pth[ridx]).ast.value is None:
+                okm = False
+                continue
+            for (extra, has_sym) in ways(f3.cfg.node(pth[ridx]).ast.value, pth, ridx):
+                conj = dict(lits)
+                if any(conj.setdefault(t, p_) != p_ for (t, p_) in extra):
+                    continue   # contradicts the path
+                if has_sym:
+                    n_with += 1
+                elif not MARKERS <= absent(conj.items()):
+                    okm = False
+        okm = okm and n_with > 0
         ck.ob(R, f3.key(None, "non-unique-qualnames"), okm, "the symbol is appended for every function whose qualified name is not unique (<lambda>, <locals>)" if okm else
               "the symbol is appended to the rule key only for some non-unique qualified names: two closures made by one factory (or two lambdas) "
               "used by one function still share a key, so the version depends on the hash seed", f3.where())
     ck.need(sinks >= 4, "determinism taint: only %d digest sinks found" % sinks)
+
+
+# what a module / the process looks like at one moment (as opposed to what a function IS)
+_MOMENT_ATTRS = {"__globals__", "__dict__", "f_globals", "f_locals", "f_back", "f_builtins"}
+_MOMENT_CALLS = {"globals", "vars", "locals", "dir", "getmembers", "get_registered_functions", "_getframe", "currentframe", "stack"}
+
+
+def _moment_reads(nodes):
+    """The places among `nodes` that look at the state of a module / of the process at the moment they run."""
+    out = []
+    for n in nodes:
+        if isinstance(n, ast.Attribute) and isinstance(n.ctx, ast.Load) and (n.attr in _MOMENT_ATTRS or (n.attr == "modules" and A.norm(n.value) == "sys")):
+            out.append(n)
+        elif isinstance(n, ast.Call):
+            nm = A.call_attr(n)
+            if nm in ("getattr", "hasattr") and len(n.args) >= 2 and A.const_str(n.args[1]) in _MOMENT_ATTRS:
+                out.append(n)
+            elif nm in _MOMENT_CALLS:
+                out.append(n)
+    return sorted(out, key=lambda n: (getattr(n, "lineno", 0), getattr(n, "col_offset", 0)))
+
+
+def check_definition_order_independence(ck, R):
+    """What is recorded about a function at the moment it is DEFINED - the names its source refers to, its required names, its
+    code hash - enters its version and must be a function of the function alone.  At that moment the module is half
+    executed: its globals hold what stands above the definition and nothing of what stands below, other modules are
+    imported or not.  Anything read from there (a `__globals__` table, `globals()`, `vars(module)`, `sys.modules`, the
+    registry of functions) makes the same program text yield different versions for different definition / import orders."""
+    ck.rule(R, "definition-order independence: the names, required names and code hash recorded when a function is defined are computed "
+               "from the function itself, never from what its module's globals (or the process) hold at that moment", 3)
+    sinks = []   # (FA, label, [(expr, node)], [stmts])
+    ini = FA(ck, MF + ".__init__")
+    for fld in ("detected_dependencies", "required_dependencies", "code_hash"):
+        asg = [s_ for s_ in ini.stmts((ast.Assign, ast.AnnAssign, ast.AugAssign)) if ini.nodes(s_) and getattr(s_, "value", None) is not None
+               and any(A.dotted(t) == "self." + fld for t in (s_.targets if isinstance(s_, ast.Assign) else [s_.target]))]
+        ck.need(bool(asg), "MementoFunction.__init__: no assignment of self.%s" % fld)
+        sinks.append((ini, "self." + fld, [(s_.value, ini.nodes(s_)[0]) for s_ in asg], asg))
+    for q in (CH + ".list_dotted_names", CH + ".fn_code_hash"):
+        fx = FA(ck, q)
+        rets = [r for r in fx.returns() if r.value is not None and fx.nodes(r)]
+        sinks.append((fx, "the value returned by %s" % fx.fi.name, [(r.value, fx.nodes(r)[0]) for r in rets], rets))
+    for (fx, label, seeds, stmts_) in sinks:
+        reads = _moment_reads(_backward_slice(fx, seeds, stmts_).values())
+        ok = not reads
+        ck.ob(R, fx.key(None, "definition-order:" + label.split(" ")[-1].replace("self.", "")), ok,
+              "%s depends on the function alone" % label if ok else
+              "%s depends on `%s`, i.e. on what a module's globals (or the process) hold at the moment the function is DEFINED: a module is half "
+              "executed then - names defined below the function are not there yet - so the same program gets another version (and other dependencies) "
+              "when its definitions are reordered or its modules imported in another order, and a second process re-executes what the first stored"
+              % (label, A.short(reads[0], 60)), fx.where(reads[0]) if reads else fx.where())
 
 
 def check_ordered_iteration(ck, R):
@@ -1689,7 +2312,7 @@ def check_ordered_iteration(ck, R):
     feed = _digest_feed(fa)
     ck.need(feed is not None, "_recompute_version: expected one place that feeds the rule hashes to the digest (a loop updating a hasher, or a hasher over a join of the pieces)")
     d = fa.df.deps(feed["iter"], feed["iter_at"])
-    ok = "call:sorted" in d
+    ok = "call:sorted" in d or _sorted_source(fa, feed["iter"], feed["iter_at"]) is not None
     site = feed["site"] if feed["kind"] == "loop" else fa.stmt_of(feed["site"])
     ck.ob(R, fa.key(site, "sorted"), ok, "rules are digested in sorted order" if ok else
           "the digest loop iterates an unordered set: the version depends on hash randomisation / definition order", fa.where(site))
@@ -1701,8 +2324,25 @@ def check_ordered_iteration(ck, R):
         m = base.methods.get(nm)
         ck.need(m is not None, "HashRule.%s not found" % nm)
         f2 = FA(ck, m)
-        at = {n.attr for r in f2.returns() for n in ast.walk(r.value) if isinstance(n, ast.Attribute)}
-        fields[nm] = at
+
+        def read_fields(fx, depth=3):
+            """the fields a method's result is computed from; an argument-less helper method of the class (a sort key) is read through"""
+            out_ = set()
+            for r in fx.returns():
+                if r.value is None:
+                    continue
+                for n in (_flow(fx, r.value, fx.nodes(r)[0]).values() if fx.nodes(r) else ast.walk(r.value)):
+                    if not isinstance(n, ast.Attribute):
+                        continue
+                    par = fx.pm.get(n)
+                    if isinstance(par, ast.Call) and par.func is n:
+                        if n.attr in base.methods and not par.args and not par.keywords and depth > 0:
+                            out_ |= read_fields(FA(ck, base.methods[n.attr]), depth - 1)
+                        continue
+                    out_.add(n.attr)
+            return out_
+
+        fields[nm] = read_fields(f2)
     srt = [c for c in fa.calls("sorted")] + [c for c in fa.calls("sort")]
     ident = fields["__eq__"]
     for c in srt:
@@ -1724,7 +2364,7 @@ def check_ordered_iteration(ck, R):
         over = [n for n in ("__lt__", "__eq__", "__hash__") if n in cls.methods]
         ck.ob(R, cls.qual + "::no-override", not over, "%s inherits the ordering" % cls.name if not over else
               "%s overrides %s" % (cls.name, over), A.loc(cls, cls.node))
-    h = FA(ck, FA(ck, CH + ".fn_code_hash").fi.nested["hash_if_code_object"])
+    h = _CodeHasher(ck).dig
     comps = [n for n in A.walk_body(h.node) if isinstance(n, (ast.ListComp, ast.GeneratorExp, ast.SetComp))]
     okc = all(A.norm(c.generators[0].iter).endswith(".co_consts") for c in comps) and not any(isinstance(c, ast.SetComp) for c in comps)
     ck.ob(R, h.key(None, "consts-in-tuple-order"), okc, "constants are visited in their tuple order" if okc else
@@ -1931,21 +2571,43 @@ def check_update_protocol(ck, R):
             return [x.target.id for x in c_.node.body if isinstance(x, ast.AnnAssign) and isinstance(x.target, ast.Name)]
         return None
 
-    stores = [s_ for s_ in fa.stmts(ast.Assign) if fa.nodes(s_) and any(isinstance(t, ast.Subscript) and fa.xnorm(t.value, fa.nodes(s_)[0]) == CACHE for t in s_.targets)]
-    ok_c = bool(stores)
-    for s_ in stores:
+    # every way an entry is put into the version cache: cache[k] = v, cache.update({k: v}), cache.__setitem__(k, v)
+    puts = []   # (statement, key expression, value expression)
+    for s_ in fa.stmts((ast.Assign, ast.Expr)):
+        if not fa.nodes(s_):
+            continue
         at_ = fa.nodes(s_)[0]
-        v = fa.expand(s_.value, at_)
+        if isinstance(s_, ast.Assign):
+            for t in s_.targets:
+                if isinstance(t, ast.Subscript) and fa.xnorm(t.value, at_) == CACHE:
+                    puts.append((s_, t.slice if len(s_.targets) == 1 else None, s_.value))
+        elif isinstance(s_.value, ast.Call) and A.call_recv(s_.value) is not None and fa.xnorm(A.call_recv(s_.value), at_) == CACHE:
+            c_ = s_.value
+            if A.call_attr(c_) == "__setitem__" and len(c_.args) == 2:
+                puts.append((s_, c_.args[0], c_.args[1]))
+            elif A.call_attr(c_) == "update" and len(c_.args) == 1 and not c_.keywords:
+                d_ = fa.expand(c_.args[0], at_)
+                if isinstance(d_, ast.Dict) and len(d_.keys) == 1 and d_.keys[0] is not None:
+                    puts.append((s_, d_.keys[0], d_.values[0]))
+                else:
+                    puts.append((s_, None, None))
+            elif A.call_attr(c_) in ("update", "setdefault"):
+                puts.append((s_, None, None))
+    stores = [p_[0] for p_ in puts]
+    ok_c = bool(stores)
+    for (s_, key_, val_) in puts:
+        at_ = fa.nodes(s_)[0]
+        v = fa.expand(val_, at_) if val_ is not None else None
         flds = nt_fields(v) if isinstance(v, ast.Call) else None
         if flds is None and isinstance(v, ast.Call) and not v.args:
             flds = []  # all fields are named at the call: their order does not matter
-        okv = flds is not None and len(s_.targets) == 1
+        okv = flds is not None and key_ is not None
         if okv:
             bound = dict(zip(flds, v.args))
             bound.update({k.arg: k.value for k in v.keywords})
-            okv = gen_field in bound and A.norm(bound[gen_field]) == GEN \
+            okv = gen_field in bound and fa.xnorm(bound[gen_field], at_) == GEN \
                 and any(f_ != gen_field and fa.xnorm(e_, at_) == "self._recompute_version()" for f_, e_ in bound.items()) \
-                and fa.xnorm(s_.targets[0].slice, at_) == "self.qualified_name_without_version"
+                and fa.xnorm(key_, at_) == "self.qualified_name_without_version"
         ok_c = ok_c and okv
     sn = set(fa.nodes_all(stores))
     for (pth, lits) in paths:
@@ -2097,9 +2759,110 @@ def check_bindings(ck, R):
               "version unchanged and the stored result is served" % (cls.name, A.short(k, 70)), fa.where(k))
 
 
+_NARROWING_CALLS = {"len", "type", "bool", "callable", "isinstance", "issubclass", "hasattr", "str", "repr"}
+
+
+def _literal_sites(fa):
+    """literal text -> (expression, CFG node) for every expression of the function that can become a literal of a path"""
+    out = {}
+    for st in fa.stmts():
+        ns = fa.nodes(st)
+        if not ns:
+            continue
+        roots = [st.test] if isinstance(st, (ast.If, ast.While)) else [st.iter] if isinstance(st, (ast.For, ast.AsyncFor)) else \
+            [] if isinstance(st, (ast.Try, ast.With, ast.FunctionDef, ast.AsyncFunctionDef, ast.ClassDef)) else [st]
+        for rt in roots:
+            for x in A.walk_local(rt):
+                if isinstance(x, (ast.Compare, ast.Call, ast.Name, ast.Attribute, ast.Subscript)) and not isinstance(getattr(x, "ctx", None), (ast.Store, ast.Del)):
+                    try:
+                        out.setdefault(fa._literal(x, ns[0], True)[0], (x, ns[0]))
+                    except AnalysisError:
+                        pass
+    return out
+
+
+def _access_paths(fa, e, at, _seen=None, depth=12):
+    """How the fresh resolution of a rule's symbol (`self.resolver()` / `self.ref_resolver()`) and the state the rule captured
+    (`self.<field>`) reach the value of `e`: a set of (root, path, frozen) with root 'fresh' or 'cap:<field>' and path the
+    attribute names / '[]' / '<fn>()' steps that NARROW the object on the way.  Looking through decorator wrappers
+    (`.__wrapped__`) is not a step; a call that transforms the value as a whole freezes the path (what is done to its result
+    says nothing about parts of the object).  Locals are followed to every definition that reaches them."""
+    seen = _seen if _seen is not None else set()
+    out = set()
+    if e is None or depth <= 0:
+        return out
+
+    def ext(ps, step):
+        return {(r_, p_ if fz or step == "__wrapped__" else p_ + (step,), fz) for (r_, p_, fz) in ps}
+
+    def rec(x, a_=at):
+        return _access_paths(fa, x, a_, seen, depth - 1)
+
+    if isinstance(e, ast.Call):
+        nm, rc = A.call_attr(e), A.call_recv(e)
+        if nm in ("resolver", "ref_resolver") and isinstance(rc, ast.Name) and rc.id == "self":
+            return {("fresh", (), False)}
+        if nm == "getattr" and isinstance(e.func, ast.Name) and len(e.args) >= 2 and A.const_str(e.args[1]) is not None:
+            return ext(rec(e.args[0]), A.const_str(e.args[1]))
+        if isinstance(e.func, ast.Name) and nm in _NARROWING_CALLS and e.args:
+            return {(r_, p_, True) for (r_, p_, _f) in ext(rec(e.args[0]), nm + "()")}
+        for x in list(e.args) + [k.value for k in e.keywords] + ([rc] if rc is not None else []):
+            out |= {(r_, p_, True) for (r_, p_, _f) in rec(x.value if isinstance(x, ast.Starred) else x)}
+        return out
+    if isinstance(e, ast.Attribute):
+        if isinstance(e.value, ast.Name) and e.value.id == "self":
+            return {("cap:" + e.attr, (), False)}
+        return ext(rec(e.value), e.attr)
+    if isinstance(e, ast.Subscript):
+        return ext(rec(e.value), "[]")
+    if isinstance(e, ast.Name):
+        if at is None or not isinstance(e.ctx, ast.Load):
+            return out
+        for d in fa.df.reaching(at, e.id):
+            if d.value is None or d.kind not in ("assign", "aug") or (d.node, d.name) in seen:
+                continue
+            seen.add((d.node, d.name))
+            out |= rec(d.value, d.node)
+        return out
+    if isinstance(e, ast.IfExp):
+        return rec(e.body) | rec(e.orelse)
+    if isinstance(e, (ast.Lambda, ast.ListComp, ast.SetComp, ast.DictComp, ast.GeneratorExp)):
+        # what is computed element by element: everything read inside counts, as a transformed value
+        for ch in ast.iter_child_nodes(e):
+            for x in ast.walk(ch):
+                if isinstance(x, (ast.Call, ast.Attribute, ast.Name)):
+                    out |= {(r_, p_, True) for (r_, p_, _f) in _access_paths(fa, x, at, seen, 2)}
+        return out
+    for ch in ast.iter_child_nodes(e):
+        if isinstance(ch, ast.expr):
+            out |= rec(ch)
+    return out
+
+
+def _hashed_paths(ck, cls):
+    """What compute_hash reads of the state the rule captured: {(field, path)}; empty when the rule contributes nothing."""
+    m = cls.methods.get("compute_hash")
+    out = set()
+    if m is None:
+        return out
+    fa = FA(ck, m)
+    for r in fa.returns():
+        if r.value is None or A.is_none(r.value) or not fa.nodes(r):
+            continue
+        for (root, path, _fz) in _access_paths(fa, r.value, fa.nodes(r)[0]):
+            if root.startswith("cap:"):
+                out.add((root[4:], path))
+    return out
+
+
+def _fmt_path(field, path):
+    return "self." + field + "".join(("." + s_ if not s_.endswith(("()", "]")) else " -> " + s_) for s_ in path)
+
+
 def check_did_change(ck, R):
     ck.rule(R, "change detection is real: each did_change compares a fresh resolution (or a fresh presence test) with "
-               "state captured when the rule was built", 4)
+               "state captured when the rule was built, and answers 'unchanged' only when that comparison covers everything "
+               "the rule's hash is computed from", 4)
     want = {
         "MementoFunctionHashRule": ("memento_fn",),
         "NonMementoFunctionHashRule": ("src_fn",),
@@ -2111,87 +2874,173 @@ def check_did_change(ck, R):
         m = cls.methods.get("did_change")
         ck.need(m is not None, "%s.did_change not found" % cls.qual)
         fa = FA(ck, m)
+        cfg = fa.cfg
         captured = want.get(cls.name, ())
         presence = cls.name == "UndefinedSymbolHashRule"
+        watch_only = _is_watch_only(cls)
         # the answer False without a comparison is allowed only when nothing is tracked
         allowed_false_guard = {"GlobalVariableHashRule": (("self.last_value is None", True),)}.get(cls.name, ())
+        hashed = _hashed_paths(ck, cls)
+        paths = _exit_paths(fa)
+        ck.need(paths is not None, "%s.did_change: too many paths" % cls.qual)
+        # The function is judged on its PATH CLASSES: every acyclic path to the normal exit with the literals of the branch
+        # tests taken on it (locals expanded, negations / nesting / guard clauses / result flags normalised away) and the
+        # value returned at its end - a constant, or an expression split into the ways it can come out false.
 
-        def judge(e, at):
-            """(fresh, captured, compares) for an expression evaluated at CFG node `at`: does its value come from a fresh
-            resolution, from the captured state, through a comparison?"""
-            d = fa.df.deps(e, at)
-            fl = list(_flow(fa, e, at).values())
-            has_in = any(isinstance(n, ast.Compare) and isinstance(n.ops[0], (ast.In, ast.NotIn)) for n in fl)
-            fresh = "call:resolver" in d or (presence and ("call:hasattr" in d or has_in))
-            cap = all(("attr:self." + c) in d for c in captured)
-            cmp_ = any(isinstance(n, ast.Compare) and isinstance(n.ops[0], (ast.Is, ast.IsNot, ast.Eq, ast.NotEq, ast.In, ast.NotIn)) for n in fl) or "call:hasattr" in d
-            return fresh, cap, cmp_
+        where_lit = _literal_sites(fa)
 
-        # the literals of the branch tests that are themselves the comparison (fresh resolution against captured state)
-        real_lits = set()
-        for n_ in fa.cfg.nodes:
-            if n_.kind == "test" and n_.id in fa.cfg.reachable_nodes():
-                for pos in (True, False):
-                    for (txt, _pol) in fa._atoms(n_.ast, n_.id, pos):
-                        for atom in [x for x in ast.walk(n_.ast) if isinstance(x, (ast.Compare, ast.Call, ast.Name))]:
-                            if fa._literal(atom, n_.id, True)[0] == txt and all(judge(atom, n_.id)):
-                                real_lits.add(txt)
+        def strategy_scan(x, at):
+            """does expression `x` ask the rule strategies (HashRule.all_rules) whether they can hash the fresh object?"""
+            for c in ast.walk(x):
+                if isinstance(c, (ast.GeneratorExp, ast.ListComp, ast.SetComp)) and len(c.generators) == 1 \
+                        and fa.xnorm(c.generators[0].iter, at).endswith("HashRule.all_rules"):
+                    for t in ast.walk(c):
+                        if isinstance(t, ast.Call) and A.call_attr(t) == "try_resolve" and any(
+                                r_ == "fresh" for a_ in list(t.args) + [k.value for k in t.keywords] for (r_, _p, _f) in _access_paths(fa, a_, at)):
+                            return True
+            return False
 
-        def is_bool(e):
-            return isinstance(e, ast.Constant) and isinstance(e.value, bool)
+        lit_info = {}
 
-        ok = None
-        why = ""
-        decided = 0
-        for r in fa.returns():
-            if r.value is None or not fa.nodes(r):
-                continue
-            # every way the answer is given: a constant under path conditions (`return False`, or a result variable that
-            # still holds a constant at the return - FA.outcomes), or an expression
-            const_ways = []   # (constant, [conjunctions])
-            if is_bool(r.value):
-                const_ways.append((r.value.value, fa.conditions(r)))
-            elif isinstance(r.value, ast.Name) and any(d.value is not None and is_bool(d.value) for i_ in fa.nodes(r) for d in fa.df.reaching(i_, r.value.id)):
-                oc = fa.outcomes(r.value.id)
-                for cv in (True, False):
-                    conjs = None if oc is None else [lits for (lits, txt) in oc if txt == repr(cv)]
-                    if conjs is None or conjs:
-                        const_ways.append((cv, conjs))
-            for (cv, conjs) in const_ways:
-                by_comparison = conjs is not None and bool(conjs) and all(any(l[0] in real_lits for l in conj) for conj in conjs)
-                if by_comparison:
-                    decided += 1
+        def info(text):
+            """what one literal says: {'kind': 'cmp' | 'presence' | 'scan' | 'strategy-none' | None, ...}"""
+            if text in lit_info:
+                return lit_info[text]
+            (e, at) = where_lit.get(text, (_parse_lit(text), None))
+            res = {"kind": None}
+            if isinstance(e, ast.Compare) and len(e.ops) == 1:
+                lp_, rp_ = _access_paths(fa, e.left, at), _access_paths(fa, e.comparators[0], at)
+                op = e.ops[0]
+                if isinstance(op, (ast.Is, ast.IsNot, ast.Eq, ast.NotEq)):
+                    for (a_, b_) in ((lp_, rp_), (rp_, lp_)):
+                        fr = {x for x in a_ if x[0] == "fresh"}
+                        cp = {x for x in b_ if x[0].startswith("cap:") and x[0][4:] in captured}
+                        if fr and cp:
+                            narrow = sorted({p_ for (_r, p_, _f) in fr | cp if any(q_[:len(p_)] != p_ for (_fl, q_) in hashed)})
+                            res = {"kind": "cmp", "covering": not narrow, "narrow": narrow}
+                            break
+                    if res["kind"] is None and A.is_none(e.comparators[0]) and isinstance(op, (ast.Is, ast.IsNot)):
+                        fl = _flow(fa, e.left, at) if at is not None else {id(x): x for x in ast.walk(e.left)}
+                        if any(isinstance(x, ast.Call) and A.call_attr(x) == "try_resolve" for x in fl.values()):
+                            res = {"kind": "strategy-none"}
+                if isinstance(op, (ast.In, ast.NotIn)) and presence:
+                    sides = lp_ | rp_
+                    if any(r_ == "cap:symbol" for (r_, _p, _f) in lp_) and any(r_ in ("fresh", "cap:ref") for (r_, _p, _f) in rp_):
+                        res = {"kind": "presence"}
+                    del sides
+            elif isinstance(e, ast.Call) and A.call_attr(e) == "hasattr" and isinstance(e.func, ast.Name) and len(e.args) == 2 and presence:
+                if any(r_ in ("fresh", "cap:ref") for (r_, _p, _f) in _access_paths(fa, e.args[0], at)) \
+                        and any(r_ == "cap:symbol" for (r_, _p, _f) in _access_paths(fa, e.args[1], at)):
+                    res = {"kind": "presence"}
+            if res["kind"] is None and e is not None and at is not None and strategy_scan(e, at):
+                res = {"kind": "scan"}
+            lit_info[text] = res
+            return res
+
+        def returned(pth):
+            """(return statement, value expression or None, CFG node at which it is evaluated) at the end of a path"""
+            ret = next((cfg.node(i).ast for i in reversed(pth) if isinstance(cfg.node(i).ast, ast.Return)), None)
+            if ret is None or ret.value is None:
+                return (ret, None, None)
+            val, vnode = ret.value, next(i for i in reversed(pth) if cfg.node(i).ast is ret)
+            limit = len(pth)
+            for _ in range(6):
+                if not isinstance(val, ast.Name):
+                    break
+                hit = None
+                for k in range(limit - 1, -1, -1):
+                    ds = [d for d in fa.df.gen.get(pth[k], []) if d.name == val.id]
+                    if ds:
+                        hit = (k, ds[0])
+                        break
+                if hit is None or hit[1].kind != "assign" or hit[1].value is None:
+                    break
+                val, vnode, limit = hit[1].value, pth[hit[0]], hit[0]
+            return (ret, val, vnode)
+
+        scan_loops = set()
+        for n_ in cfg.nodes:
+            if n_.kind == "for" and n_.id in cfg.reachable_nodes() and fa.xnorm(n_.ast.iter, n_.id).endswith("HashRule.all_rules"):
+                if any(isinstance(t, ast.Call) and A.call_attr(t) == "try_resolve" and fa.nodes(t) and any(
+                        r_ == "fresh" for a_ in list(t.args) + [k.value for k in t.keywords] for (r_, _p, _f) in _access_paths(fa, a_, fa.nodes(t)[0]))
+                       for t in A.calls_in(n_.ast)):
+                    scan_loops.add(n_.id)
+
+        n_compared = 0          # ways (either answer) that were decided by the comparison
+        bad = {}                # id(return stmt) -> (return stmt, [reasons], constant?)
+        for (pth, lits) in paths:
+            (ret, val, vnode) = returned(pth)
+            if isinstance(val, ast.Constant) and val.value is not None:
+                ways = None if bool(val.value) else [[]]
+            elif val is None or A.is_none(val):
+                ways = [[]]
+            else:
+                try:
+                    ways = fa._alts(val, vnode, False)
+                except AnalysisError:
+                    ways = [[(A.norm(val), False)]]
+            base_cmp = [t for t in lits if info(t)["kind"] in ("cmp", "presence")]
+            if ways is None:
+                n_compared += bool(base_cmp)
+                continue  # "changed" without looking costs a recomputation, never a stale version
+            for w in ways:
+                conj = dict(lits)
+                if any(conj.setdefault(t, p_) != p_ for (t, p_) in w):
                     continue
-                if cv is True:
-                    continue  # "changed" without looking costs a recomputation, never a stale version
-                okg = conjs is not None and all(any(l in conj for l in allowed_false_guard) or any(l[0] in real_lits for l in conj) for conj in conjs)
-                extra = sorted({("" if l[1] else "not ") + l[0] for conj in (conjs or []) for l in conj if l not in allowed_false_guard and l[0] not in real_lits})
-                unguarded = conjs is not None and any(not conj for conj in conjs)
-                ck.ob(R, fa.key(r, "no-shortcut"), okg, "False is answered without comparing only when nothing is tracked" if okg else
-                      "%s.did_change answers False early under `%s`: a value changed without re-binding the name (list.append, dict[k] = v) or "
-                      "an equal-looking replacement is never noticed" % (cls.name, "; ".join(extra)[:80] if extra else "no guard"), fa.where(r))
-                if unguarded and ok is None:
-                    ok, why = False, "returns the constant False"
-            if const_ways and not (isinstance(r.value, ast.Name)):
+                kinds = {t: info(t) for t in conj}
+                cmps = [t for t in conj if kinds[t]["kind"] == "cmp"]
+                ok_way = any((t, p_) in allowed_false_guard for t, p_ in conj.items())
+                ok_way = ok_way or any(conj[t] is True and kinds[t]["covering"] for t in cmps)
+                if presence:
+                    ok_way = ok_way or any(kinds[t]["kind"] == "presence" and conj[t] is False for t in conj)
+                if watch_only and not ok_way:
+                    # nothing is hashed for the symbol itself: once the comparison has said "bound to another object", the answer
+                    # may be narrowed to "and some strategy can hash it now" - asked of the fresh object, of every strategy
+                    asked = any(kinds[t]["kind"] == "scan" for t in conj) or bool(scan_loops & set(pth))
+                    ok_way = any(conj[t] is False for t in cmps) and asked and not any(kinds[t]["kind"] == "strategy-none" and conj[t] is False for t in conj)
+                if ok_way:
+                    n_compared += 1
+                    continue
+                narrow = sorted({p_ for t in cmps if conj[t] is True for p_ in kinds[t]["narrow"]})
+                extra = sorted({("" if p_ else "not ") + t for t, p_ in conj.items() if (t, p_) not in allowed_false_guard and kinds[t]["kind"] is None})
+                key_node = ret if ret is not None else fa.node
+                ent = bad.setdefault(id(key_node), (ret, [], []))
+                if narrow:
+                    ent[1].append("narrow:" + "; ".join("".join("." + s_ for s_ in p_) for p_ in narrow))
+                else:
+                    ent[1].append("; ".join(extra)[:80] if extra else "no guard")
+                ent[2].append(not conj)
+        for r in fa.returns():
+            if r.value is None or not fa.nodes(r) or not (isinstance(r.value, ast.Constant) or isinstance(r.value, ast.Name)) or id(r) in bad:
                 continue
-            # an expression (or a result variable that may hold one)
-            for i_ in fa.nodes(r):
-                fresh, cap, cmp_ = judge(r.value, i_)
-                if fresh and cap and cmp_:
-                    decided += 1
-                elif fresh and _is_watch_only(cls) and "call:try_resolve" in fa.df.deps(r.value, i_) \
-                        and (lambda cj: cj is not None and bool(cj) and all(any(l[0] in real_lits for l in conj) for conj in cj))(fa.conditions(r)):
-                    # a watch-only rule contributes nothing itself: once the comparison has said "bound to another object",
-                    # the answer may be narrowed to "and some strategy can hash it now" (asked of the fresh resolution)
-                    decided += 1
-                elif ok is None and not (const_ways and not (fresh or cap or cmp_)):
-                    ok = False
-                    why = ("does not re-resolve the symbol" if not fresh else
-                           "does not compare with the captured %s (a type test alone cannot see that the name now designates a different object)" % "/".join(captured) if not cap else
-                           "does not compare")
-        if ok is None:
-            ok = decided > 0
-            why = why or "returns a constant"
+            if isinstance(r.value, ast.Constant) and r.value.value is False:
+                ck.ob(R, fa.key(r, "no-shortcut"), True, "False is answered without comparing only when nothing is tracked", fa.where(r))
+        why = ""
+        for (ret, reasons, unguarded) in bad.values():
+            narrow = [x for x in reasons if x.startswith("narrow:")]
+            if narrow:
+                ck.ob(R, fa.key(ret, "compares-what-is-hashed"), False,
+                      "%s.did_change answers 'unchanged' when only `%s` of the freshly resolved object equals that of the captured one, but the rule's hash "
+                      "(compute_hash) is computed from %s: an object that differs elsewhere (default values, captured closure constants, another "
+                      "attribute) gets a different hash, yet no recomputation is asked for and results of the earlier edition are served"
+                      % (cls.name, narrow[0][7:], ", ".join(sorted(_fmt_path(f_, q_) for (f_, q_) in hashed)) or "nothing"), fa.where(ret))
+                why = why or "compares only a part (%s) of what the rule hashes" % narrow[0][7:]
+            rest = [x for x in reasons if not x.startswith("narrow:")]
+            if rest:
+                ck.ob(R, fa.key(ret, "no-shortcut"), False,
+                      "%s.did_change answers False early under `%s`: a value changed without re-binding the name (list.append, dict[k] = v) or "
+                      "an equal-looking replacement is never noticed" % (cls.name, rest[0]), fa.where(ret))
+                if any(unguarded):
+                    why = why or "returns the constant False"
+        # the overall verdict, with the most specific reason
+        any_fresh = any(r_ == "fresh" for st in fa.stmts() if fa.nodes(st) for x in A.walk_local(st) if isinstance(x, ast.Call)
+                        for (r_, _p, _f) in _access_paths(fa, x, None))
+        any_real = any(i_["kind"] in ("cmp", "presence") for i_ in lit_info.values())
+        ok = not bad and n_compared > 0
+        if not ok and not why:
+            why = ("does not re-resolve the symbol" if not (any_fresh or (presence and any_real)) else
+                   "does not compare with the captured %s (a type test alone cannot see that the name now designates a different object)" % "/".join(captured) if not any_real else
+                   "returns a constant" if not bad else "can answer 'unchanged' without the comparison having said so")
         ck.ob(R, fa.key(None), ok, "%s.did_change compares a fresh resolution with the captured %s" % (cls.name, "/".join(captured)) if ok else
               "%s.did_change %s" % (cls.name, why), fa.where())
 
@@ -2202,10 +3051,25 @@ def check_every_symbol_watched(ck, R):
     (result.add / collect_transitive_dependencies), except the exits for a function without globals and for
     black-listed objects."""
     v = FA(ck, CH + ".HashRule._visit_dependency")
-    adds = v.nodes_all([c for c in v.calls("add") if A.norm(A.call_recv(c)) == "result"] + v.calls("collect_transitive_dependencies"))
+    adds = v.nodes_all([c for (c, _el) in _set_additions(v, "result")] + v.calls("collect_transitive_dependencies"))
     # exits that are allowed to add nothing: `if not hasattr(src_fn, '__globals__'): return`
+    def about_globals(if_):
+        """is the test of this `if` about the function having a globals table (spelt on the spot or through a local)?"""
+        ns_ = v.nodes(if_.test)
+        t = v.expand(if_.test, ns_[0]) if ns_ else if_.test
+        while isinstance(t, ast.UnaryOp) and isinstance(t.op, ast.Not):
+            t = t.operand
+
+        def globals_read(x):
+            return (isinstance(x, ast.Attribute) and x.attr == "__globals__") or \
+                (isinstance(x, ast.Call) and A.call_attr(x) == "getattr" and len(x.args) >= 2 and A.const_str(x.args[1]) == "__globals__")
+
+        if isinstance(t, ast.Call) and A.call_attr(t) == "hasattr" and len(t.args) == 2 and A.const_str(t.args[1]) == "__globals__":
+            return True
+        return isinstance(t, ast.Compare) and len(t.ops) == 1 and isinstance(t.ops[0], (ast.Is, ast.IsNot)) and A.is_none(t.comparators[0]) and globals_read(t.left)
+
     allowed = [n.id for n in v.cfg.nodes if n.kind == "stmt" and isinstance(n.ast, ast.Return) and v.enclosing(n.ast, ast.If) is not None
-               and "__globals__" in A.norm(v.enclosing(n.ast, ast.If).test)]
+               and about_globals(v.enclosing(n.ast, ast.If))]
     p = v.cfg.path(v.cfg.entry, v.cfg.exit, removed=set(adds) | set(allowed))
     ok = p is None
     ck.ob(R, v.key(None, "every-symbol-watched"), ok, "every exit adds a rule for the symbol" if ok else
@@ -2225,7 +3089,7 @@ def check_every_symbol_watched(ck, R):
         n += 1
         fa = FA(ck, m)
         res = fa.fi.params[1] if len(fa.fi.params) > 1 else "result"
-        adds = fa.nodes_all([c for c in fa.calls("add") if A.norm(A.call_recv(c)) == res])
+        adds = fa.nodes_all([c for (c, _el) in _set_additions(fa, res)])
         # the way out on which the rule found itself accounted for already (`self in result`) needs no addition, whatever
         # the shape of the test (guard clause with an early return, or the rest of the body nested under its negation)
         from .cache_model import branch_filter
@@ -2348,7 +3212,8 @@ def _none_for_missing(node):
             nones.append(x)
         if isinstance(x, ast.Call) and A.call_attr(x) == "getattr" and len(x.args) == 3 and A.is_none(x.args[2]):
             nones.append(x)
-        if isinstance(x, ast.Call) and A.call_attr(x) == "get" and "global_table" in A.norm(A.call_recv(x)) and (len(x.args) == 1 or A.is_none(x.args[1])):
+        if isinstance(x, ast.Call) and A.call_attr(x) == "get" and isinstance(A.call_recv(x), ast.Name) and not x.keywords \
+                and (len(x.args) == 1 or (len(x.args) == 2 and A.is_none(x.args[1]))):
             nones.append(x)
     return nones
 
@@ -2408,8 +3273,7 @@ def check_resolver_closures(ck, R):
                     for (e, a_) in _alternatives(v, arg, un):
                         if isinstance(e, ast.Call) and e is not arg and _closure_factory(ck, v, e) is not None:
                             factories.setdefault(id(e), (e, a_))
-                        if isinstance(e, ast.Call) and A.call_attr(e) == "partial" and e.args and isinstance(e.args[0], ast.Name) \
-                                and e.args[0].id in ck.repo.module(CH).functions and not v.df.is_local(e.args[0].id):
+                        if isinstance(e, ast.Call) and A.call_attr(e) == "partial" and e.args and not _closures_denoted(v, e.args[0], a_):
                             partials.setdefault(id(e), (e, a_))
                     if isinstance(arg, ast.Call) and _closure_factory(ck, v, arg) is not None:
                         factories.setdefault(id(arg), (arg, un))
@@ -2417,6 +3281,13 @@ def check_resolver_closures(ck, R):
         derived = set()
         changed = True
         assigns = [(s, t.id) for s in v.stmts(ast.Assign) for t in s.targets if isinstance(t, ast.Name)]
+
+        def reads_globals(e):
+            return any((isinstance(x, ast.Attribute) and x.attr == "__globals__") or
+                       (isinstance(x, ast.Call) and A.call_attr(x) == "getattr" and len(x.args) >= 2 and A.const_str(x.args[1]) == "__globals__") for x in ast.walk(e))
+
+        # the locals that hold the globals table of the function (the ROOT every resolution starts from), whatever they are called
+        tables = {"global_table"} | {name for (s_, name) in assigns if reads_globals(s_.value)}
 
         def calls_resolver(n, at):
             if not isinstance(n.func, ast.Name):
@@ -2433,11 +3304,13 @@ def check_resolver_closures(ck, R):
                 val = s.value
                 is_eval = False
                 for n in ast.walk(val):
-                    if isinstance(n, ast.Call) and (A.call_attr(n) in ("getattr",) or (isinstance(n.func, ast.Name) and n.func.id.startswith("resolver")) or A.call_attr(n) == "memento_fn_resolver"):
+                    if isinstance(n, ast.Call) and ((A.call_attr(n) in ("getattr",) and not reads_globals(n)) or (isinstance(n.func, ast.Name) and n.func.id.startswith("resolver")) or A.call_attr(n) == "memento_fn_resolver"):
                         is_eval = True
                     if isinstance(n, ast.Call) and calls_resolver(n, v.nodes(s)[0]):
                         is_eval = True
-                    if isinstance(n, ast.Subscript) and (A.norm(n.value) == "global_table" or v.xnorm(n.value, v.nodes(s)[0]).endswith(".__globals__")):
+                    if isinstance(n, ast.Subscript) and (A.norm(n.value) in tables or v.xnorm(n.value, v.nodes(s)[0]).endswith(".__globals__")):
+                        is_eval = True
+                    if isinstance(n, ast.Call) and A.call_attr(n) == "get" and isinstance(A.call_recv(n), ast.Name) and A.call_recv(n).id in tables:
                         is_eval = True
                     if isinstance(n, ast.Name) and n.id in derived:
                         is_eval = True
@@ -2507,15 +3380,18 @@ def check_resolver_closures(ck, R):
         # must not be an object obtained by evaluating the chain
         for (pc, pat) in sorted(partials.values(), key=lambda f_: getattr(f_[0], "lineno", 0)):
             n_res += 1
+            pname = A.norm(pc.args[0])
+            where_ = "loop" if v.enclosing(pc, ast.For) is not None else "top"
             bad = sorted({n_.id for a_ in list(pc.args[1:]) + [k.value for k in pc.keywords] for n_ in ast.walk(a_) if isinstance(n_, ast.Name)} & derived)
-            ck.ob(R, "%s::partial %s@%s" % (v.qual, pc.args[0].id, "loop" if v.enclosing(pc, ast.For) is not None else "top"), not bad,
+            ck.ob(R, "%s::partial %s@%s" % (v.qual, pname, where_), not bad,
                   "resolver re-resolves from the global table" if not bad else
                   "the resolver `%s` is bound to %s, an object obtained while evaluating the chain: when an intermediate object is replaced "
                   "(class re-executed, module attribute rebound) the rule keeps looking at the old object and did_change never fires" % (A.short(pc, 50), bad), A.loc(v.fi, pc))
-            pf = ck.repo.module(CH).functions[pc.args[0].id]
-            nones = _none_for_missing(pf.node)
-            ck.ob(R, "%s::partial %s@%s::missing-is-not-none" % (v.qual, pc.args[0].id, "loop" if v.enclosing(pc, ast.For) is not None else "top"), not nones,
-                  "a missing name resolves to a sentinel of its own" if not nones else NONE_MSG % A.short(nones[0], 60), A.loc(pf, nones[0] if nones else pf.node))
+            pf = ck.repo.module(CH).functions.get(pname) if isinstance(pc.args[0], ast.Name) and not v.df.is_local(pname) else None
+            if pf is not None:
+                nones = _none_for_missing(pf.node)
+                ck.ob(R, "%s::partial %s@%s::missing-is-not-none" % (v.qual, pname, where_), not nones,
+                      "a missing name resolves to a sentinel of its own" if not nones else NONE_MSG % A.short(nones[0], 60), A.loc(pf, nones[0] if nones else pf.node))
         # rules that watch for a symbol to appear must also look it up from the root each time
         for c in v.calls("UndefinedSymbolHashRule"):
             base = c.args[0] if c.args else A.kwarg(c, "ref")
@@ -2562,7 +3438,7 @@ def check_field_call_lint(ck, R):
 
 
 # --------------------------------------------------------------------------------- C14
-def _unwrapped_param(fa, name, at):
+def _unwrapped_param(fa, name, at, _depth=4):
     """If local `name` at CFG node `at` holds parameter P after `while hasattr(v, '__wrapped__'): v = v.__wrapped__` (every
     reaching definition is `v = P` or `v = v.__wrapped__`), or `inspect.unwrap(P)`: P, else None."""
     ds = fa.df.reaching(at, name)
@@ -2582,6 +3458,13 @@ def _unwrapped_param(fa, name, at):
                 return None
             base = v.id
         elif isinstance(v, ast.Attribute) and v.attr == "__wrapped__" and isinstance(v.value, ast.Name) and v.value.id == name:
+            steps += 1
+        elif isinstance(v, ast.Name) and v.id != name and fa.df.is_local(v.id) and _depth > 0 and _unwrapped_param(fa, v.id, d.node, _depth - 1) is not None:
+            # a copy of a local that already holds the unwrapped parameter
+            inner = _unwrapped_param(fa, v.id, d.node, _depth - 1)
+            if base not in (None, inner):
+                return None
+            base = inner
             steps += 1
         elif isinstance(v, ast.Call) and A.call_attr(v) == "unwrap" and len(v.args) == 1 and isinstance(v.args[0], ast.Name) and v.args[0].id in fa.fi.params:
             if base not in (None, v.args[0].id):
@@ -2688,8 +3571,22 @@ def check_dotted_names(ck, R):
     # filtering loop alike).  Anything else narrows the name set.
     WANT = {"fn.__code__.co_varnames", "fn.__code__.co_cellvars"}
     unwrapped_bases = set()
-    du0 = [c for c in fa.calls("difference_update") if isinstance(A.call_recv(c), ast.Name) and len(c.args) == 1]
-    RES = A.call_recv(du0[0]).id if du0 else "result"
+    def is_res(e, at, depth=4):
+        """does `e` designate the set in which the visitor gathered the names (the visitor instance's field, through any
+        local alias)?"""
+        if e is None or at is None or depth <= 0:
+            return False
+        x = fa.expand(e, at)
+        if isinstance(x, ast.Attribute) and x.attr in ACC and isinstance(x.value, ast.Call) and A.call_attr(x.value) == cls.name:
+            return True
+        if isinstance(e, ast.Name):
+            # every binding that reaches here is the set (an augmented assignment reduces it in place: still the same set)
+            ds = [d for d in fa.df.reaching(at, e.id) if d.kind != "aug"]
+            return bool(ds) and all(d.kind == "assign" and d.value is not None and is_res(d.value, d.node, depth - 1) for d in ds)
+        return False
+
+    # the locals that stand for that set
+    RESNAMES = {d.name for ds in fa.df.gen.values() for d in ds if d.kind == "assign" and d.value is not None and "." not in d.name and is_res(d.value, d.node)}
 
     def local_sources(e, at, depth=6):
         """where the elements of a set-valued expression come from (attribute chains)"""
@@ -2699,7 +3596,7 @@ def check_dotted_names(ck, R):
             if not e.args:
                 return set()
             return local_sources(e.args[0], at, depth - 1) if len(e.args) == 1 else {"<?>"}
-        if isinstance(e, ast.BinOp) and isinstance(e.op, ast.BitOr):
+        if isinstance(e, ast.BinOp) and isinstance(e.op, (ast.BitOr, ast.Add)):
             return local_sources(e.left, at, depth - 1) | local_sources(e.right, at, depth - 1)
         if isinstance(e, ast.Call) and A.call_attr(e) == "union" and A.call_recv(e) is not None:
             out = local_sources(A.call_recv(e), at, depth - 1)
@@ -2734,61 +3631,128 @@ def check_dotted_names(ck, R):
         return set(ch) if ch else {"<not a plain attribute of fn.__code__>: " + A.norm(e)}
 
     def first_component_of(e, var):
-        return A.norm(e) in ("%s[0:%s.find('.')]" % (var, var), "%s[:%s.find('.')]" % (var, var), "%s.split('.')[0]" % var,
-                             "%s.split('.', 1)[0]" % var, "%s.partition('.')[0]" % var)
+        """'slice' for x[:x.find('.')] (meaningful only for a dotted x), 'split' for x.split('.')[0] / x.partition('.')[0] (the
+        name itself when there is no dot), else None"""
+        t = A.norm(e)
+        if t in ("%s[0:%s.find('.')]" % (var, var), "%s[:%s.find('.')]" % (var, var), "%s[0:%s.index('.')]" % (var, var), "%s[:%s.index('.')]" % (var, var)):
+            return "slice"
+        if t in ("%s.split('.')[0]" % var, "%s.split('.', 1)[0]" % var, "%s.partition('.')[0]" % var, "%s.split('.', maxsplit=1)[0]" % var):
+            return "split"
+        return None
 
-    def chains_rooted_at_locals(arg, at):
-        """is `arg` {x for x in RES if ['.' in x and] <first component of x> in <the locals>}?"""
-        spec = _collection_spec(fa, arg, at)
-        if spec is None or not isinstance(spec["iter"], ast.Name) or spec["iter"].id != RES or A.norm(spec["elt"]) != spec["var"]:
-            return False
-        member = 0
-        for (t, pol) in spec["atoms"]:
-            if isinstance(t, ast.Compare) and len(t.ops) == 1 and isinstance(t.ops[0], (ast.In, ast.NotIn)):
+    def dnf(t, pol):
+        """a test taken with a polarity as alternatives of [(atom, polarity)]"""
+        if isinstance(t, ast.UnaryOp) and isinstance(t.op, ast.Not):
+            return dnf(t.operand, not pol)
+        if isinstance(t, ast.BoolOp):
+            parts = [dnf(v, pol) for v in t.values]
+            if (isinstance(t.op, ast.And) and pol) or (isinstance(t.op, ast.Or) and not pol):
+                out = [[]]
+                for p_ in parts:
+                    out = [a_ + b_ for a_ in out for b_ in p_]
+                return out
+            return [c_ for p_ in parts for c_ in p_]
+        return [[(t, pol)]]
+
+    local_sets = []   # where the elements of every set used as "the locals" come from
+
+    def selection(atoms, var, at):
+        """Which elements `var` of the name set a filter selects for removal: None if it is not "the first component is a local"
+        (for all its alternatives), else {'L': plain locals are covered, 'C': chains rooted at locals are covered}."""
+        alts_ = [[]]
+        for (t, pol) in atoms:
+            alts_ = [a_ + b_ for a_ in alts_ for b_ in dnf(t, pol)]
+        cover = {"L": False, "C": False}
+        for conj in alts_:
+            dot_guard, kinds = False, []
+            for (t, pol) in conj:
+                if not (isinstance(t, ast.Compare) and len(t.ops) == 1 and isinstance(t.ops[0], (ast.In, ast.NotIn))):
+                    return None
                 pol_in = pol if isinstance(t.ops[0], ast.In) else not pol
-                if pol_in and A.norm(t.left) in ("'.'", '"."') and A.norm(t.comparators[0]) == spec["var"]:
+                if not pol_in:
+                    return None
+                if A.norm(t.left) in ("'.'", '"."') and A.norm(t.comparators[0]) == var:
+                    dot_guard = True
                     continue
-                if pol_in and first_component_of(t.left, spec["var"]) and local_sources(t.comparators[0], spec["at"]) in [WANT] + subtracted_sets:
-                    member += 1
-                    continue
-            return False
-        return member >= 1
+                fc = "plain" if A.norm(t.left) == var else first_component_of(t.left, var)
+                if fc is None:
+                    return None
+                local_sets.append(local_sources(t.comparators[0], at))
+                kinds.append(fc)
+            if not kinds or ("slice" in kinds and not dot_guard):
+                return None   # x[:x.find('.')] of a name without a dot is the name minus its last character
+            if "plain" in kinds or ("split" in kinds and not dot_guard):
+                cover["L"] = True
+            if "slice" in kinds or "split" in kinds:
+                cover["C"] = True
+        return cover
 
-    reductions = []  # (statement, subtracted expression or None)
+    def copy_of_res(e, at):
+        """list(RES) / set(RES) / tuple(RES) / sorted(RES) / RES.copy(): a snapshot to iterate while RES is reduced"""
+        for (x, a_) in _alternatives(fa, e, at):
+            if isinstance(x, ast.Call) and isinstance(x.func, ast.Name) and x.func.id in ("list", "set", "tuple", "sorted", "frozenset") and len(x.args) == 1 and is_res(x.args[0], a_):
+                continue
+            if isinstance(x, ast.Call) and A.call_attr(x) == "copy" and not x.args and A.call_recv(x) is not None and is_res(A.call_recv(x), a_):
+                continue
+            return False
+        return True
+
+    # every reduction of the name set: ('subtract', stmt, set expression) / ('select', stmt, cover or None) / ('other', stmt)
+    reductions = []
+
+    def reduce_by(st, arg, at0):
+        spec_ = _collection_spec(fa, arg, at0) if arg is not None else None
+        if arg is None:
+            reductions.append(("other", st, None))
+        elif spec_ is not None:
+            if is_res(spec_["iter"], spec_["iter_at"]) and A.norm(spec_["elt"]) == spec_["var"]:
+                reductions.append(("select", st, selection(spec_["atoms"], spec_["var"], spec_["at"])))
+            else:
+                reductions.append(("other", st, None))
+        else:
+            reductions.append(("subtract", st, arg))
+
     for st in fa.stmts():
         if not fa.nodes(st):
             continue
-        if isinstance(st, ast.Assign) and any(isinstance(t, ast.Name) and t.id == RES for t in st.targets):
-            if not (isinstance(st.value, ast.Attribute) and st.value.attr in ACC and isinstance(st.value.value, ast.Name)
-                    and isinstance(fa.expand(st.value.value, fa.nodes(st)[0]), ast.Call) and A.call_attr(fa.expand(st.value.value, fa.nodes(st)[0])) == cls.name):
-                if isinstance(st.value, ast.BinOp) and isinstance(st.value.op, ast.Sub) and A.norm(st.value.left) == RES:
-                    reductions.append((st, st.value.right))
+        at0 = fa.nodes(st)[0]
+        if isinstance(st, (ast.Assign, ast.AnnAssign)) and getattr(st, "value", None) is not None \
+                and any(isinstance(t, ast.Name) and t.id in RESNAMES for t in (st.targets if isinstance(st, ast.Assign) else [st.target])):
+            if not is_res(st.value, at0):
+                if isinstance(st.value, ast.BinOp) and isinstance(st.value.op, ast.Sub) and is_res(st.value.left, at0):
+                    reduce_by(st, st.value.right, at0)
                 else:
-                    reductions.append((st, None))
-        if isinstance(st, ast.AugAssign) and isinstance(st.target, ast.Name) and st.target.id == RES:
-            reductions.append((st, st.value if isinstance(st.op, ast.Sub) else None))
-        if isinstance(st, ast.Expr) and isinstance(st.value, ast.Call) and A.norm(A.call_recv(st.value)) == RES \
+                    reduce_by(st, None, at0)
+        if isinstance(st, ast.AugAssign):
+            tg = st.target
+            hit = (isinstance(tg, ast.Name) and tg.id in RESNAMES) or \
+                (isinstance(tg, ast.Attribute) and is_res(ast.copy_location(ast.Attribute(value=tg.value, attr=tg.attr, ctx=ast.Load()), tg), at0))
+            if hit:
+                reduce_by(st, st.value if isinstance(st.op, ast.Sub) else None, at0)
+        if isinstance(st, ast.Expr) and isinstance(st.value, ast.Call) and A.call_recv(st.value) is not None and is_res(A.call_recv(st.value), at0) \
                 and A.call_attr(st.value) in ("difference_update", "intersection_update", "discard", "remove", "clear", "pop", "symmetric_difference_update"):
-            reductions.append((st, st.value.args[0] if A.call_attr(st.value) == "difference_update" and len(st.value.args) == 1 else None))
-    klass = {}
+            c_ = st.value
+            if A.call_attr(c_) == "difference_update" and len(c_.args) == 1:
+                reduce_by(st, c_.args[0], at0)
+            elif A.call_attr(c_) in ("discard", "remove") and len(c_.args) == 1 and isinstance(c_.args[0], ast.Name):
+                # `for x in list(RES): [if ...:] RES.discard(x)`: a selection of RES's own elements, removed one by one
+                lf = _loop_filter(fa, st)
+                if lf is not None and lf[0].target.id == c_.args[0].id and copy_of_res(lf[0].iter, lf[2]):
+                    reductions.append(("select", st, selection(lf[1], lf[0].target.id, lf[2])))
+                else:
+                    reductions.append(("other", st, None))
+            else:
+                reductions.append(("other", st, None))
     srcs = set()
-    # the sets subtracted as a whole (what the function treats as its locals, judged separately below)
-    subtracted_sets = [local_sources(arg, fa.nodes(st)[0]) for (st, arg) in reductions if arg is not None and _collection_spec(fa, arg, fa.nodes(st)[0]) is None]
-    for (st, arg) in reductions:
-        at_ = fa.nodes(st)[0]
-        spec_ = _collection_spec(fa, arg, at_) if arg is not None else None
-        if arg is None:
-            klass[id(st)] = "other"
-        elif chains_rooted_at_locals(arg, at_):
-            klass[id(st)] = "chains"
-        elif spec_ is not None:
-            # some selection of RES's own elements is removed, but not by first-component membership
-            klass[id(st)] = "chains?" if isinstance(spec_["iter"], ast.Name) and spec_["iter"].id == RES and A.norm(spec_["elt"]) == spec_["var"] else "other"
-        else:
-            s_ = local_sources(arg, at_)
-            klass[id(st)] = "locals" if s_ == WANT else "locals?"
-            srcs |= s_
-    okl = "locals" in klass.values() and "locals?" not in klass.values()
+    for (kind, st, arg) in reductions:
+        if kind == "subtract":
+            local_sets.append(local_sources(arg, fa.nodes(st)[0]))
+    for s_ in local_sets:
+        srcs |= s_
+    selects = [c_ for (kind, st, c_) in reductions if kind == "select"]
+    covers_l = any(kind == "subtract" for (kind, _st, _a) in reductions) or any(c_ and c_["L"] for c_ in selects)
+    covers_c = any(c_ and c_["C"] for c_ in selects)
+    okl = bool(local_sets) and all(s_ == WANT for s_ in local_sets)
     ck.ob(R, fa.key(None, "locals-removed"), okl, "exactly co_varnames and co_cellvars are treated as local" if okl else
           "the set of names treated as local is %s (expected co_varnames and co_cellvars): globals are dropped or locals kept" % sorted(srcs), fa.where())
     # inspect.getsource looks through functools.wraps wrappers, so the names in `source` are those of the innermost wrapped
@@ -2798,17 +3762,17 @@ def check_dotted_names(ck, R):
     ck.ob(R, fa.key(None, "locals-of-the-function-read"), oku, "the locals are those of the function whose source is read (looked through its wrappers)" if oku else
           "the source is read through the function's wrappers (inspect.getsource follows __wrapped__) but the locals removed are those of the "
           "wrapper itself: for a decorated helper the names of its own locals stay in the set and real references can be dropped", fa.where())
-    okd = bool({"locals", "locals?"} & set(klass.values())) and bool({"chains", "chains?"} & set(klass.values()))
+    okd = covers_l and (covers_c or bool(selects))
     ck.ob(R, fa.key(None, "difference"), okd, "locals and chains rooted at locals are subtracted" if okd else
           "list_dotted_names no longer subtracts both locals and local-rooted chains", fa.where())
     # chains are removed only when their FIRST COMPONENT is a local (membership of the part before
     # the first '.', not a string-prefix test)
-    okc = "chains" in klass.values() and "chains?" not in klass.values()
+    okc = covers_c and all(c_ is not None for c_ in selects)
     ck.ob(R, fa.key(None, "local-rooted-chains"), okc, "a dotted name is dropped only when its first component is a local" if okc else
           "dotted names are not filtered by membership of their first component in the locals (e.g. a string-prefix test): "
           "`steps.base` is dropped when a parameter is called `step`, and the dependency disappears from the closure", fa.where())
     # nothing else narrows the name set between extraction and return
-    narrow = [st for (st, arg) in reductions if klass[id(st)] == "other"]
+    narrow = [st for (kind, st, _a) in reductions if kind == "other"]
     ck.ob(R, fa.key(None, "no-further-narrowing"), not narrow, "the extracted names are only reduced by the locals" if not narrow else
           "the extracted name set is narrowed further (`%s`): names the function really refers to (e.g. only inside a nested lambda or generator) "
           "are dropped, and edits to them never change the version" % A.short(narrow[0], 70), fa.where(narrow[0] if narrow else None))
@@ -2829,6 +3793,13 @@ def check_dotted_names(ck, R):
     ini = FA(ck, MF + ".__init__")
     dd = [s for s in ini.stmts(ast.Assign) if any(A.dotted(t) == "self.detected_dependencies" for t in s.targets)]
     oc = ini.outcomes("self.detected_dependencies") if dd else None
+    # stored through a local that is not re-bound afterwards: what that local finally holds, per path class
+    if dd and all(isinstance(s_.value, ast.Name) and ini.df.is_local(s_.value.id) for s_ in dd) and len({s_.value.id for s_ in dd}) == 1 \
+            and oc is not None and {txt for (_l, txt) in oc} == {dd[0].value.id}:
+        loc_ = dd[0].value.id
+        after = ini.cfg.reach(ini.nodes_all(dd), include_start=False)
+        if not any(d_.name == loc_ for nid in after for d_ in ini.df.gen.get(nid, [])):
+            oc = ini.outcomes(loc_)
     okdd = bool(oc) and {txt for (_l, txt) in oc} == {"list_dotted_names(self.src_fn)", "set()"} \
         and all((("auto_dependencies", True) in l_) == (txt != "set()") and (("auto_dependencies", False) in l_) == (txt == "set()") for (l_, txt) in oc)
     ck.ob(R, ini.key(None, "detected"), okdd, "detected dependencies = dotted names of the source function (when enabled)" if okdd else
@@ -2850,11 +3821,26 @@ def check_graph_derivation(ck, R):
     ck.ob(R, t.key(None), ok, "transitive = every rule with a function, except self" if ok else
           "transitive_memento_fn_dependencies is not {rule.memento_fn for all rules with a function, minus self}", t.where())
     d = FA(ck, "dependency_graph.DependencyGraph.direct_memento_fn_dependencies")
-    import re as _re
-    txt = A.norm(d.node)
-    mvar = _re.search(r"\b(\w+)\.first_level\b", txt)
-    rv = mvar.group(1) if mvar else "rule"
-    okd = mvar is not None and (("%s.memento_fn != self.memento_fn" % rv) in txt or ("self.memento_fn != %s.memento_fn" % rv) in txt) and "self._all_rules" in txt
+    rd = d.one(d.returns(), "return")
+    dspec = _collection_spec(d, rd.value, d.nodes(rd)[0]) if rd.value is not None and d.nodes(rd) else None
+    if dspec is not None:
+        # decided on WHAT COLLECTION is returned: the rules' functions, filtered by exactly "has a function, not self, first level"
+        # (a predicate moved into a local function is read through)
+        atoms = []
+        for (t, pol) in dspec["atoms"]:
+            t2 = _inline_predicate(d, t)
+            atoms += _split_atoms(t2, pol) if t2 is not t else [(t, pol)]
+        lits = _spec_literals(d, dict(dspec, atoms=atoms))
+        need_ = {("hasattr(_c0, 'memento_fn')", True), ("_c0.memento_fn == self.memento_fn", False), ("_c0.first_level", True)}
+        okd = d.xnorm(dspec["iter"], dspec["iter_at"]) == "self._all_rules" and A.norm(_rename(dspec["elt"], dspec["var"], "_c0")) == "_c0.memento_fn" \
+            and need_ <= lits and lits - need_ <= {("_c0.memento_fn is None", False)}
+    else:
+        import re as _re
+        txt = A.norm(d.node)
+        mvar = _re.search(r"\b(\w+)\.first_level\b", txt)
+        rv = mvar.group(1) if mvar else "rule"
+        okd = mvar is not None and (("%s.memento_fn != self.memento_fn" % rv) in txt or ("self.memento_fn != %s.memento_fn" % rv) in txt) and "self._all_rules" in txt \
+            and ("not %s.first_level" % rv) not in txt and " or " not in txt
     ck.ob(R, d.key(None), okd, "direct = first-level rules with a function, except self" if okd else
           "direct_memento_fn_dependencies is not derived from first_level rules", d.where())
     ini = FA(ck, "dependency_graph.DependencyGraph.__init__")
@@ -2890,15 +3876,17 @@ def check_names_resolved_where_defined(ck, R):
     ck.rule(R, "referenced names are resolved in the globals of the function whose source was read (wrappers looked through)", 1)
     v = FA(ck, CH + ".HashRule._visit_dependency")
     src = v.fi.params[1] if len(v.fi.params) > 1 else "src_fn"
-    reads = [n for n in ast.walk(v.node) if isinstance(n, ast.Attribute) and n.attr == "__globals__" and isinstance(n.ctx, ast.Load)]
-    reads = [n for n in reads if v.enclosing(n, ast.Assign) is not None or v.enclosing(n, ast.Return) is not None]
+    reads = [n for n in ast.walk(v.node) if (isinstance(n, ast.Attribute) and n.attr == "__globals__" and isinstance(n.ctx, ast.Load))
+             or (isinstance(n, ast.Call) and A.call_attr(n) == "getattr" and isinstance(n.func, ast.Name) and len(n.args) >= 2 and A.const_str(n.args[1]) == "__globals__")]
+    reads = [n for n in reads if v.enclosing(n, (ast.Assign, ast.AnnAssign)) is not None or v.enclosing(n, ast.Return) is not None]
     ck.need(bool(reads), "_visit_dependency: no read of __globals__ found")
     for n in reads:
-        st = v.enclosing(n, ast.Assign) or v.enclosing(n, ast.Return)
+        st = v.enclosing(n, (ast.Assign, ast.AnnAssign)) or v.enclosing(n, ast.Return)
         at = v.nodes(st)[0] if v.nodes(st) else None
         if at is None:
             continue
-        u = _chain_through_unwrap(v, n, at)
+        chain = n if isinstance(n, ast.Attribute) else ast.copy_location(ast.Attribute(value=n.args[0], attr="__globals__", ctx=ast.Load()), n)
+        u = _chain_through_unwrap(v, chain, at)
         ok = u is not None and u[1] == src
         ck.ob(R, v.key(None, "globals-of-the-function-read"), ok, "names are resolved in the globals of the wrapped function" if ok else
               "`%s` is read from the object as given: for a helper decorated by a functools.wraps decorator of another module that is the "
